@@ -22,15 +22,24 @@ is exactly a history that violates this hypothesis.
 -/
 namespace U3.Pool
 
+/-- the exchange of response `rs` is over: the declared length has been read; for a chunked reply (to
+anything but `HEAD`) a chunk parser has read the empty line that ends the message — or has hit EOF
+while it was discarding the trailer section (the connection is then at EOF: the checkout probe drops it) -/
+def Done (rs : Resp) : Prop :=
+  if rs.chunked = true ∧ rs.isHead = false then (rs.eom = true ∨ rs.eof = true) else rs.length = some 0
+
+/-- the end of the body of `rs` is determined by its framing (and not by the end of the connection) -/
+def Delim (rs : Resp) : Prop := rs.length.isSome = true ∨ rs.chunked = true
+
 structure LinkX (L X : Option Nat) (s : State) : Prop where
   nosock : ∀ (c : Nat) (cn : Conn), s.conns[c]? = some cn → cn.sock = none → cn.pending = none
   bound : ∀ (c : Nat) (cn : Conn) (r : Nat), s.conns[c]? = some cn → cn.pending = some r → r < s.resps.length
   pend : ∀ (c : Nat) (cn : Conn) (k r : Nat) (rs : Resp), s.conns[c]? = some cn → cn.sock = some k →
     cn.pending = some r → s.resps[r]? = some rs →
-    rs.length.isSome = true ∧ (∀ k', rs.fp = some k' → k' = k) ∧
+    Delim rs ∧ (∀ k', rs.fp = some k' → k' = k) ∧
     (L ≠ some c →
       if X = some r then rs.conn = some c
-      else (rs.fp = none → rs.length = some 0) ∧ (rs.fp ≠ none → rs.conn = some c))
+      else (rs.fp = none → Done rs) ∧ (rs.fp ≠ none → rs.conn = some c))
 
 abbrev Link (L : Option Nat) (s : State) : Prop := LinkX L none s
 
@@ -60,7 +69,7 @@ theorem linkx_frame {L X : Option Nat} {s s' : State} (h : LinkX L X s)
       ∃ cn : Conn, s.conns[c]? = some cn ∧ cn'.sock = cn.sock ∧ (cn'.pending = cn.pending ∨ cn'.pending = none))
     (hl : s.resps.length ≤ s'.resps.length)
     (hr : ∀ (r : Nat) (rs' : Resp), s'.resps[r]? = some rs' → r < s.resps.length →
-      ∃ rs : Resp, s.resps[r]? = some rs ∧ rs'.fp = rs.fp ∧ rs'.length = rs.length ∧ rs'.conn = rs.conn) :
+      ∃ rs : Resp, s.resps[r]? = some rs ∧ rs'.fp = rs.fp ∧ rs'.conn = rs.conn ∧ (Delim rs → Delim rs') ∧ (Done rs → Done rs')) :
     LinkX L X s' := by
   refine ⟨?_, ?_, ?_⟩
   · intro c cn' h1 h2
@@ -80,9 +89,14 @@ theorem linkx_frame {L X : Option Nat} {s s' : State} (h : LinkX L X s)
     · rw [e] at h2; cases h2
     · rcases g3 with g3 | g3
       · have hb := h.bound c cn r g1 (by rw [← g3]; exact h3)
-        obtain ⟨rs, q1, q2, q3, q4⟩ := hr r rs' h4 hb
-        have := h.pend c cn k r rs g1 (by rw [← g2]; exact h2) (by rw [← g3]; exact h3) q1
-        rw [q2, q3, q4]; exact this
+        obtain ⟨rs, q1, q2, q3, q4, q5⟩ := hr r rs' h4 hb
+        obtain ⟨p1, p2, p3⟩ := h.pend c cn k r rs g1 (by rw [← g2]; exact h2) (by rw [← g3]; exact h3) q1
+        refine ⟨q4 p1, by rw [q2]; exact p2, fun hL => ?_⟩
+        have p3' := p3 hL
+        rw [q2, q3]
+        split
+        · rename_i hX; rw [if_pos hX] at p3'; exact p3'
+        · rename_i hX; rw [if_neg hX] at p3'; exact ⟨fun hn => q5 (p3'.1 hn), p3'.2⟩
       · rw [g3] at h3; cases h3
 
 /-- no connected, non-leased connection has `r` as its `__response` -/
@@ -93,19 +107,19 @@ theorem closeFp_fields2 (s : State) (r : Nat) :
     (closeFp s r).conns = s.conns ∧ (closeFp s r).resps.length = s.resps.length ∧
     (∀ i, i ≠ r → (closeFp s r).resps[i]? = s.resps[i]?) ∧
     (∀ rs : Resp, s.resps[r]? = some rs → ∃ rs' : Resp, (closeFp s r).resps[r]? = some rs' ∧ rs'.fp = none ∧
-      rs'.length = rs.length ∧ rs'.conn = rs.conn) := by
+      rs'.length = rs.length ∧ rs'.conn = rs.conn ∧ (Delim rs → Delim rs') ∧ (Done rs → Done rs')) := by
   obtain ⟨e1, _, e3, e4, _⟩ := closeFp_fields s r
   refine ⟨e1, e3, e4, ?_⟩
   intro rs hrs
   unfold closeFp
   simp only [hrs]
   split
-  · rename_i h1; exact ⟨rs, hrs, h1, rfl, rfl⟩
+  · rename_i h1; exact ⟨rs, hrs, h1, rfl, rfl, id, id⟩
   · rw [(noteClose_fields _ _).2.1]
-    exact ⟨{ rs with fp := none, buf := [] }, by simp [setResp, List.getElem?_modify, hrs], rfl, rfl, rfl⟩
+    exact ⟨{ rs with fp := none, buf := [] }, by simp [setResp, List.getElem?_modify, hrs], rfl, rfl, rfl, id, id⟩
 
 theorem closeFp_linkx {L X : Option Nat} {s : State} {r : Nat} (h : LinkX L X s)
-    (ok : X = some r ∨ ∀ rs : Resp, s.resps[r]? = some rs → rs.fp = none ∨ rs.length = some 0 ∨ NoOwner L s r) :
+    (ok : X = some r ∨ ∀ rs : Resp, s.resps[r]? = some rs → rs.fp = none ∨ Done rs ∨ NoOwner L s r) :
     LinkX L X (closeFp s r) := by
   obtain ⟨e1, e2, e3, e4⟩ := closeFp_fields2 s r
   refine ⟨by rw [e1]; exact h.nosock, by rw [e1, e2]; exact h.bound, ?_⟩
@@ -115,10 +129,10 @@ theorem closeFp_linkx {L X : Option Nat} {s : State} {r : Nat} (h : LinkX L X s)
   · subst hrr
     have hb := h.bound c cn r' h1 h3
     have hrs : s.resps[r']? = some s.resps[r'] := List.getElem?_eq_getElem hb
-    obtain ⟨rs'', g1, g2, g3, g4⟩ := e4 _ hrs
+    obtain ⟨rs'', g1, g2, g3, g4, g5, g6⟩ := e4 _ hrs
     rw [g1] at h4; cases h4
     obtain ⟨q1, q2, q3⟩ := h.pend c cn k r' _ h1 h2 h3 hrs
-    refine ⟨by rw [g3]; exact q1, (by intro k' hk'; rw [g2] at hk'; cases hk'), ?_⟩
+    refine ⟨g5 q1, (by intro k' hk'; rw [g2] at hk'; cases hk'), ?_⟩
     intro hL
     have q3' := q3 hL
     by_cases hX : X = some r'
@@ -126,7 +140,7 @@ theorem closeFp_linkx {L X : Option Nat} {s : State} {r : Nat} (h : LinkX L X s)
       rw [g4]; exact q3'
     · simp only [hX, if_false] at q3' ⊢
       refine ⟨fun _ => ?_, fun hne => absurd g2 hne⟩
-      rw [g3]
+      apply g6
       rcases ok with ok | ok
       · exact absurd ok hX
       · rcases ok _ hrs with o | o | o
@@ -142,7 +156,7 @@ theorem linkx_log {L X : Option Nat} {s s' : State} (h : LinkX L X s) (hc : s'.c
     LinkX L X s' := by
   refine linkx_frame h ?_ (by rw [hr]; exact Nat.le_refl _) ?_
   · intro c cn' h1; rw [hc] at h1; exact Or.inr ⟨cn', h1, rfl, Or.inl rfl⟩
-  · intro r rs' h1 _; rw [hr] at h1; exact ⟨rs', h1, rfl, rfl, rfl⟩
+  · intro r rs' h1 _; rw [hr] at h1; exact ⟨rs', h1, rfl, rfl, id, id⟩
 
 theorem connClose_linkx_gen {L X : Option Nat} {s : State} (c : Nat) (h : LinkX L X s)
     (si : SockInj s ∨ (L = none ∧ X = none)) :
@@ -152,7 +166,7 @@ theorem connClose_linkx_gen {L X : Option Nat} {s : State} (c : Nat) (h : LinkX 
   · exact h
   · rename_i cn hcn
     have h1 : LinkX L X (setConn s c fun x => { x with sock := none, http := .idle, pending := none, proxyConnected := false }) := by
-      refine linkx_frame h ?_ (Nat.le_refl _) (fun r rs' h1 _ => ⟨rs', h1, rfl, rfl, rfl⟩)
+      refine linkx_frame h ?_ (Nat.le_refl _) (fun r rs' h1 _ => ⟨rs', h1, rfl, rfl, id, id⟩)
       intro c' cn' h1
       simp only [setConn, List.getElem?_modify] at h1
       cases hx : s.conns[c']? with
@@ -222,7 +236,8 @@ theorem connClose_linkx_gen {L X : Option Nat} {s : State} (c : Nat) (h : LinkX 
 and not the focus -/
 theorem setResp_linkx {L X : Option Nat} {s : State} (r : Nat) (g : Resp → Resp) (h : LinkX L X s)
     (hfp : ∀ x, (g x).fp = x.fp)
-    (hlen : ∀ x, s.resps[r]? = some x → (g x).length = x.length ∨ ((x.fp ≠ none ∨ X = some r) ∧ x.length.isSome = true ∧ (g x).length.isSome = true))
+    (hdl : ∀ x, s.resps[r]? = some x → Delim x → Delim (g x))
+    (hdn : ∀ x, s.resps[r]? = some x → (Done x → Done (g x)) ∨ x.fp ≠ none ∨ X = some r)
     (hconn : ∀ x, s.resps[r]? = some x → (g x).conn = x.conn ∨ (x.fp = none ∧ X ≠ some r)) :
     LinkX L X (setResp s r g) := by
   refine ⟨h.nosock, by simpa [setResp] using h.bound, ?_⟩
@@ -237,10 +252,7 @@ theorem setResp_linkx {L X : Option Nat} {s : State} (r : Nat) (g : Resp → Res
     by_cases hrr : r = r'
     · subst hrr
       simp at h4; subst h4
-      refine ⟨?_, by rw [hfp]; exact q2, ?_⟩
-      · rcases hlen x hx with e | ⟨_, _, e⟩
-        · rw [e]; exact q1
-        · exact e
+      refine ⟨hdl x hx q1, by rw [hfp]; exact q2, ?_⟩
       · intro hL
         have q3' := q3 hL
         by_cases hX : X = some r
@@ -251,11 +263,10 @@ theorem setResp_linkx {L X : Option Nat} {s : State} (r : Nat) (g : Resp → Res
         · simp only [hX, if_false] at q3' ⊢
           rw [hfp]
           refine ⟨fun hn => ?_, fun hn => ?_⟩
-          · rcases hlen x hx with e | ⟨e, _, _⟩
-            · rw [e]; exact q3'.1 hn
-            · rcases e with e | e
-              · exact absurd hn e
-              · exact absurd e hX
+          · rcases hdn x hx with e | e | e
+            · exact e (q3'.1 hn)
+            · exact absurd hn e
+            · exact absurd e hX
           · rcases hconn x hx with e | ⟨e, _⟩
             · rw [e]; exact q3'.2 hn
             · exact absurd e hn
@@ -279,7 +290,7 @@ theorem linkx_enter {L : Option Nat} {s : State} {r : Nat} (h : Link L s)
 /-- the read is over: the response is still open, or it was read to the end, or it owns no live
 connection any more -/
 theorem linkx_leave {L : Option Nat} {s : State} {r : Nat} (h : LinkX L (some r) s)
-    (hok : ∀ rs : Resp, s.resps[r]? = some rs → rs.fp ≠ none ∨ rs.length = some 0 ∨ NoOwner L s r) : Link L s := by
+    (hok : ∀ rs : Resp, s.resps[r]? = some rs → rs.fp ≠ none ∨ Done rs ∨ NoOwner L s r) : Link L s := by
   refine ⟨h.nosock, h.bound, ?_⟩
   intro c cn k r' rs h1 h2 h3 h4
   obtain ⟨q1, q2, q3⟩ := h.pend c cn k r' rs h1 h2 h3 h4
@@ -316,7 +327,7 @@ theorem setConn_flag_linkx {L X : Option Nat} {s : State} (c : Nat) (b : Bool) (
       simp only [hx, Option.map_eq_map, Option.map_some, Option.some.injEq] at h1
       subst h1
       refine ⟨x, rfl, ?_, Or.inl ?_⟩ <;> (split <;> rfl)
-  · intro r rs' h1 _; exact ⟨rs', h1, rfl, rfl, rfl⟩
+  · intro r rs' h1 _; exact ⟨rs', h1, rfl, rfl, id, id⟩
 
 theorem putConn_linkx {L X : Option Nat} {s : State} (x : Option Nat) (h : LinkX L X s) (si : SockInj s) :
     LinkX L X (putConn s x).1 := by
@@ -358,7 +369,7 @@ theorem releaseConn_linkx {L X : Option Nat} {s : State} {r : Nat} (h : LinkX L 
         | none =>
           dsimp only at h1 hc1 ⊢
           rw [respFpClosed_iff] at hc1
-          exact setResp_linkx r _ h1 (fun _ => rfl) (fun _ _ => Or.inl rfl) (fun x hx => Or.inr ⟨hc1 x hx, hX⟩)
+          exact setResp_linkx r _ h1 (fun _ => rfl) (fun _ _ d => d) (fun _ _ => Or.inl id) (fun x hx => Or.inr ⟨hc1 x hx, hX⟩)
 
 theorem closeFp_resps (s : State) (r i : Nat) (rs' : Resp) (h : (closeFp s r).resps[i]? = some rs') :
     ∃ rs : Resp, s.resps[i]? = some rs ∧ rs'.conn = rs.conn ∧ rs'.length = rs.length ∧ (rs'.fp = rs.fp ∨ rs'.fp = none) := by
@@ -370,7 +381,7 @@ theorem closeFp_resps (s : State) (r i : Nat) (rs' : Resp) (h : (closeFp s r).re
       · rw [← e2]; exact h'
       · rw [List.getElem?_eq_none h'] at h; cases h
     have hrs : s.resps[i]? = some s.resps[i] := List.getElem?_eq_getElem hb
-    obtain ⟨rs'', g1, g2, g3, g4⟩ := e4 _ hrs
+    obtain ⟨rs'', g1, g2, g3, g4, _⟩ := e4 _ hrs
     rw [g1] at h; cases h
     exact ⟨_, hrs, g4, g3, Or.inr g2⟩
   · rw [e3 i hir] at h; exact ⟨rs', h, rfl, rfl, Or.inl rfl⟩
@@ -440,7 +451,7 @@ theorem respClose_link {L : Option Nat} {s : State} {r : Nat} (h : Link L s) (si
   by_cases hopen : ∀ rs : Resp, s.resps[r]? = some rs → rs.fp ≠ none
   · exact respClose_exempt (linkx_enter h hopen) si
   · -- already closed: `closeFp` changes nothing relevant, `conn.close()` is always fine
-    have hcl : ∀ rs : Resp, s.resps[r]? = some rs → rs.fp = none ∨ rs.length = some 0 ∨ NoOwner L s r := by
+    have hcl : ∀ rs : Resp, s.resps[r]? = some rs → rs.fp = none ∨ Done rs ∨ NoOwner L s r := by
       intro rs hrs
       cases hfp : rs.fp with
       | none => exact Or.inl rfl
@@ -479,7 +490,7 @@ theorem ece_false_link {L : Option Nat} {s : State} {r : Nat} (h : Link L s) (si
   exact ece_tail_link (respClose_link h si) ((respClose_safe s r).sockInj si)
 
 theorem ece_true_exempt {L : Option Nat} {s : State} {r : Nat} (h : LinkX L (some r) s) (si : SockInj s)
-    (hok : ∀ rs : Resp, s.resps[r]? = some rs → rs.fp ≠ none ∨ rs.length = some 0 ∨ NoOwner L s r) :
+    (hok : ∀ rs : Resp, s.resps[r]? = some rs → rs.fp ≠ none ∨ Done rs ∨ NoOwner L s r) :
     Link L (errorCatcherExit s r true).1 := by
   have e : (errorCatcherExit s r true) = (if respFpClosed s r then releaseConn s r else (s, none)) := rfl
   rw [e]
@@ -503,16 +514,54 @@ theorem readRel_linkx {L X : Option Nat} {s s' : State} {r k : Nat} {m : List Ce
       have hrs : s.resps[i]? = some s.resps[i] := List.getElem?_eq_getElem hb
       obtain ⟨b, hb'⟩ := rel.rsame _ hrs
       rw [hb'] at h1; cases h1
-      exact ⟨_, hrs, rfl, rfl, rfl⟩
-    · rw [rel.rother i hir] at h1; exact ⟨rs', h1, rfl, rfl, rfl⟩
+      exact ⟨_, hrs, rfl, rfl, id, id⟩
+    · rw [rel.rother i hir] at h1; exact ⟨rs', h1, rfl, rfl, id, id⟩
+
+theorem done_plain {rs : Resp} (hc : rs.chunked = false) : Done rs ↔ rs.length = some 0 := by
+  unfold Done; simp [hc]
+
+theorem done_head {rs : Resp} (hc : rs.isHead = true) : Done rs ↔ rs.length = some 0 := by
+  unfold Done; simp [hc]
+
+theorem done_chunked {rs : Resp} (hc : rs.chunked = true) (hh : rs.isHead = false) : Done rs ↔ (rs.eom = true ∨ rs.eof = true) := by
+  unfold Done; simp [hc, hh]
+
+theorem delim_plain {rs : Resp} (hc : rs.chunked = false) : Delim rs ↔ rs.length.isSome = true := by
+  unfold Delim; simp [hc]
+
+/-- whatever the focused reader does to its own buffers and parser state -/
+theorem dirty_linkx {L : Option Nat} {s s' : State} {r k : Nat} (h : LinkX L (some r) s) (d : Dirty r k s s') :
+    LinkX L (some r) s' := by
+  refine ⟨by rw [d.conns]; exact h.nosock, by rw [d.conns, d.rlen]; exact h.bound, ?_⟩
+  intro c cn k' r' rs' h1 h2 h3 h4
+  rw [d.conns] at h1
+  by_cases hrr : r' = r
+  · subst hrr
+    have hb := h.bound c cn r' h1 h3
+    have hrs : s.resps[r']? = some s.resps[r'] := List.getElem?_eq_getElem hb
+    obtain ⟨rs1, g1, _, _, _, a4, _, a6, a7, a8, _⟩ := d.rsame _ hrs
+    rw [g1] at h4; cases h4
+    obtain ⟨q1, q2, q3⟩ := h.pend c cn k' r' _ h1 h2 h3 hrs
+    refine ⟨?_, ?_, fun hL => ?_⟩
+    · unfold Delim at q1 ⊢; rw [a6, a7]; exact q1
+    · intro k2 hk2
+      rcases a4 with a4 | a4
+      · exact q2 k2 (by rw [← a4]; exact hk2)
+      · rw [a4] at hk2; cases hk2
+    · have := q3 hL
+      simp only [if_true] at this ⊢
+      rw [a8]; exact this
+  · rw [d.rother r' hrr] at h4
+    obtain ⟨q1, q2, q3⟩ := h.pend c cn k' r' rs' h1 h2 h3 h4
+    exact ⟨q1, q2, q3⟩
 
 /-- a `HEAD` response has nothing to read -/
 theorem head_len0 {A : Nat → Attempt → Prop} {f : Focus} {s : State} {r k : Nat} {rs : Resp} (p : ProvF A s f)
     (hrs : s.resps[r]? = some rs) (hk : rs.fp = some k) (hh : rs.isHead = true) : rs.length = some 0 := by
   rcases p.resp r rs hrs with ⟨e, _⟩ | ⟨a, hd, fr⟩
   · rw [hk] at e; cases e
-  · obtain ⟨sk, _, _, q⟩ := fr.opn k hk
-    obtain ⟨l, e1, e2⟩ := q 0 (by simp [initLength, noBody, hh])
+  · obtain ⟨sk, _, _, _, _, q⟩ := fr.opn k hk
+    obtain ⟨l, e1, e2⟩ := q 0 (by simp [lenBound, initLength, noBody, hh])
     rw [e1]; congr; omega
 
 /-- what `http.client`'s `read` leaves behind when it returns data: the reader is still open, or the
@@ -520,13 +569,227 @@ declared length has been consumed, or the response is not length-delimited, or n
 (`amt` bytes were asked for) -/
 def HRPost (r : Nat) (amt : Option Nat) (s1 : State) (out : DataOut) : Prop :=
   ∀ d, out = .data d → ∀ rs1 : Resp, s1.resps[r]? = some rs1 →
-    rs1.fp ≠ none ∨ rs1.length = some 0 ∨ rs1.length = none ∨ (∃ n, amt = some n ∧ n ≠ 0 ∧ d = [])
+    (rs1.fp ≠ none ∧ (rs1.chunked = true → ∀ n, amt = some n → n ≠ 0 → d ≠ [])) ∨ Done rs1 ∨ ¬ Delim rs1 ∨
+      (∃ n, amt = some n ∧ n ≠ 0 ∧ d = [] ∧ rs1.chunked = false)
 
 theorem closeFp_at (s : State) (r : Nat) (rs : Resp) (hrs : s.resps[r]? = some rs) :
-    ∀ rs1 : Resp, (closeFp s r).resps[r]? = some rs1 → rs1.length = rs.length := by
+    ∀ rs1 : Resp, (closeFp s r).resps[r]? = some rs1 → rs1.length = rs.length ∧ rs1.chunked = rs.chunked ∧
+      rs1.isHead = rs.isHead ∧ rs1.eom = rs.eom ∧ rs1.eof = rs.eof := by
   intro rs1 h1
-  obtain ⟨rs', g1, _, g3, _⟩ := (closeFp_fields2 s r).2.2.2 rs hrs
-  rw [g1] at h1; cases h1; exact g3
+  unfold closeFp at h1
+  simp only [hrs] at h1
+  split at h1
+  · rw [hrs] at h1; cases h1; exact ⟨rfl, rfl, rfl, rfl, rfl⟩
+  · rw [(noteClose_fields _ _).2.1] at h1
+    simp [setResp, List.getElem?_modify, hrs] at h1
+    subst h1; exact ⟨rfl, rfl, rfl, rfl, rfl⟩
+
+theorem closeFp_done (s : State) (r : Nat) (rs : Resp) (hrs : s.resps[r]? = some rs) :
+    ∀ rs1 : Resp, (closeFp s r).resps[r]? = some rs1 → (Done rs1 ↔ Done rs) ∧ (Delim rs1 ↔ Delim rs) := by
+  intro rs1 h1
+  obtain ⟨a1, a2, a3, a4, a5⟩ := closeFp_at s r rs hrs rs1 h1
+  unfold Done Delim
+  rw [a1, a2, a3, a4, a5]
+  exact ⟨Iff.rfl, Iff.rfl⟩
+
+/-! ### the chunk parsers: when they say the body is over, they have seen the end of the message (or EOF) -/
+
+theorem setResp_at {s : State} {r : Nat} {rs : Resp} (g : Resp → Resp) (h : s.resps[r]? = some rs) :
+    (setResp s r g).resps[r]? = some (g rs) := by
+  simp [setResp, List.getElem?_modify, h]
+
+theorem setResp_at_none {s : State} {r : Nat} (g : Resp → Resp) (h : s.resps[r]? = none) :
+    (setResp s r g).resps[r]? = none := by
+  simp [setResp, List.getElem?_modify, h]
+
+theorem hcDiscardTrailer_post (r k : Nat) : ∀ (fuel : Nat) (s s' : State), hcDiscardTrailer fuel s r k = (s', none) →
+    ∀ rs' : Resp, s'.resps[r]? = some rs' → rs'.eom = true ∨ rs'.eof = true := by
+  intro fuel
+  induction fuel with
+  | zero => intro s s' h; simp [hcDiscardTrailer] at h
+  | succ fuel ih =>
+    intro s s' h rs' hrs'
+    unfold hcDiscardTrailer at h
+    generalize fpReadline (inboundLen s k + 2) s r k [] = res at h
+    obtain ⟨s1, o⟩ := res
+    cases o with
+    | exc e => cases h
+    | data line =>
+      dsimp only at h
+      split at h
+      · cases h
+        cases hx : s1.resps[r]? with
+        | none => rw [setResp_at_none _ hx] at hrs'; cases hrs'
+        | some x => rw [setResp_at _ hx] at hrs'; cases hrs'; exact Or.inr rfl
+      · split at h
+        · cases h
+          cases hx : s1.resps[r]? with
+          | none => rw [setResp_at_none _ hx] at hrs'; cases hrs'
+          | some x => rw [setResp_at _ hx] at hrs'; cases hrs'; exact Or.inl rfl
+        · exact ih s1 s' h rs' hrs'
+
+theorem skipTrailers_post (r k : Nat) : ∀ (fuel : Nat) (s s' : State), skipTrailers fuel s r k = (s', none) →
+    ∀ rs' : Resp, s'.resps[r]? = some rs' → rs'.eom = true ∨ rs'.eof = true := by
+  intro fuel
+  induction fuel with
+  | zero => intro s s' h; simp [skipTrailers] at h
+  | succ fuel ih =>
+    intro s s' h rs' hrs'
+    unfold skipTrailers at h
+    generalize fpReadline (inboundLen s k + 2) s r k [] = res at h
+    obtain ⟨s1, o⟩ := res
+    cases o with
+    | exc e => cases h
+    | data line =>
+      dsimp only at h
+      split at h
+      · cases h
+        cases hx : s1.resps[r]? with
+        | none => rw [setResp_at_none _ hx] at hrs'; cases hrs'
+        | some x => rw [setResp_at _ hx] at hrs'; cases hrs'; exact Or.inr rfl
+      · split at h
+        · cases h
+          cases hx : s1.resps[r]? with
+          | none => rw [setResp_at_none _ hx] at hrs'; cases hrs'
+          | some x => rw [setResp_at _ hx] at hrs'; cases hrs'; exact Or.inl rfl
+        · exact ih s1 s' h rs' hrs'
+
+theorem hcNext_post {s s' : State} {r k : Nat} {cl v : Option Nat} (h : hcNext s r k cl = (s', .left v)) :
+    (v = none → ∀ rs' : Resp, s'.resps[r]? = some rs' → rs'.fp = none ∧ (rs'.eom = true ∨ rs'.eof = true)) ∧
+    (∀ n, v = some n → 0 < n ∧ ∃ m, ReadRelP r k s s' m) := by
+  unfold hcNext at h
+  generalize hto : hcToss s r k cl = res at h
+  obtain ⟨s1, oe⟩ := res
+  obtain ⟨m0, rel0, _⟩ := hcToss_rel hto
+  cases oe with
+  | some e => cases h
+  | none =>
+    dsimp only at h
+    generalize hfr : fpReadline (inboundLen s1 k + 2) s1 r k [] = res at h
+    obtain ⟨s2, o⟩ := res
+    obtain ⟨m1, rel1, _⟩ := fpReadline_rel _ _ _ _ _ _ _ hfr
+    cases o with
+    | exc e => cases h
+    | data line =>
+      dsimp only at h
+      split at h
+      · cases h
+      · generalize hdt : hcDiscardTrailer _ s2 r k = res at h
+        obtain ⟨s3, oe⟩ := res
+        cases oe with
+        | some e => cases h
+        | none =>
+          cases h
+          refine ⟨fun _ rs' hrs' => ?_, by intro n hn; cases hn⟩
+          have hcl := closeFp_closed (setResp s3 r fun x => { x with hcLeft := none }) r
+          rw [respFpClosed_iff] at hcl
+          refine ⟨hcl rs' hrs', ?_⟩
+          cases hx : s3.resps[r]? with
+          | none =>
+            have : (closeFp (setResp s3 r fun x => { x with hcLeft := none }) r).resps[r]? = none := by
+              unfold closeFp; rw [setResp_at_none _ hx]
+              exact setResp_at_none _ hx
+            rw [this] at hrs'; cases hrs'
+          | some x =>
+            obtain ⟨_, _, _, a4, a5⟩ := closeFp_at _ r _ (setResp_at (fun x => { x with hcLeft := none }) hx) rs' hrs'
+            rw [a4, a5]
+            exact hcDiscardTrailer_post r k _ s2 s3 hdt x hx
+      · cases h
+        refine ⟨(by intro hv; cases hv), fun n hn => ⟨by cases hn; omega, m0 ++ m1 ++ [], ?_⟩⟩
+        exact (rel0.trans rel1).toP.trans (setParse_relP r k s2 _ (fun x => ⟨rfl, rfl, rfl, rfl, rfl, rfl, rfl, rfl, rfl, rfl⟩))
+
+theorem hcGetChunkLeft_post {s s' : State} {r k : Nat} {v : Option Nat} (h : hcGetChunkLeft s r k = (s', .left v)) :
+    (v = none → ∀ rs' : Resp, s'.resps[r]? = some rs' → rs'.fp = none ∧ (rs'.eom = true ∨ rs'.eof = true)) ∧
+    (∀ n, v = some n → 0 < n ∧ ∃ m, ReadRelP r k s s' m) := by
+  unfold hcGetChunkLeft at h
+  split at h
+  · cases h
+    exact ⟨(by intro hv; cases hv), fun n hn => ⟨by cases hn; omega, [], ReadRelP.refl _ _ _⟩⟩
+  · exact hcNext_post h
+
+theorem open_of_relP {s s' : State} {r k : Nat} {m : List Cell} (rel : ReadRelP r k s s' m)
+    (ho : ∀ rs : Resp, s.resps[r]? = some rs → rs.fp ≠ none) : ∀ rs' : Resp, s'.resps[r]? = some rs' → rs'.fp ≠ none := by
+  intro rs' hrs'
+  have hb : r < s.resps.length := by
+    rw [← rel.rlen]
+    rcases Nat.lt_or_ge r s'.resps.length with h' | h'
+    · exact h'
+    · rw [List.getElem?_eq_none h'] at hrs'; cases hrs'
+  obtain ⟨rx, hx, _, _, _, a4, _⟩ := rel.rsame _ (List.getElem?_eq_getElem hb)
+  rw [hrs'] at hx; cases hx
+  rw [a4]; exact ho _ (List.getElem?_eq_getElem hb)
+
+theorem hcReadChunked_post (r k : Nat) : ∀ (fuel : Nat) (s s1 : State) (amt : Option Nat) (acc d : List Cell),
+    hcReadChunked fuel s r k amt acc = (s1, .data d) → (∀ rs : Resp, s.resps[r]? = some rs → rs.fp ≠ none) →
+    ∀ rs1 : Resp, s1.resps[r]? = some rs1 →
+      (rs1.fp ≠ none ∧ ((acc ≠ [] ∨ ∀ n, amt = some n → n ≠ 0) → d ≠ [])) ∨ (rs1.eom = true ∨ rs1.eof = true) := by
+  intro fuel
+  induction fuel with
+  | zero => intro s s1 amt acc d h; simp [hcReadChunked] at h
+  | succ fuel ih =>
+    intro s s1 amt acc d h ho rs1 hrs1
+    unfold hcReadChunked at h
+    generalize hg : hcGetChunkLeft s r k = res at h
+    obtain ⟨s2, lo⟩ := res
+    cases lo with
+    | exc e => cases h
+    | left v =>
+      obtain ⟨pn, ps⟩ := hcGetChunkLeft_post hg
+      cases v with
+      | none => cases h; exact Or.inr (pn rfl rs1 hrs1).2
+      | some cl =>
+        obtain ⟨hcl, m, rel⟩ := ps cl rfl
+        have ho2 := open_of_relP rel ho
+        dsimp only at h
+        split at h
+        · rename_i n hshort
+          have hamt : amt = some n := by
+            cases amt with
+            | none => cases hshort
+            | some n' =>
+              dsimp only at hshort
+              split at hshort
+              · cases hshort; rfl
+              · cases hshort
+          generalize hsr : safeRead s2 r k n = res at h
+          obtain ⟨s3, o⟩ := res
+          obtain ⟨m3, rel3, hd3⟩ := safeRead_rel hsr
+          cases o with
+          | exc e => cases h
+          | data d0 =>
+            cases h
+            obtain ⟨e0, hl0⟩ := hd3 d0 rfl
+            have rel4 := rel3.toP.trans (setParse_relP r k s3 (fun x => { x with hcLeft := some (cl - n) })
+              (fun x => ⟨rfl, rfl, rfl, rfl, rfl, rfl, rfl, rfl, rfl, rfl⟩))
+            refine Or.inl ⟨open_of_relP rel4 ho2 rs1 hrs1, ?_⟩
+            intro hne
+            rcases hne with hne | hne
+            · intro e; apply hne; simpa using (List.append_eq_nil_iff.mp e).1
+            · have := hne n hamt
+              intro e
+              have : d0 = [] := (List.append_eq_nil_iff.mp e).2
+              rw [this] at e0; rw [← e0] at hl0; simp at hl0; omega
+        · generalize hsr : safeRead s2 r k cl = res at h
+          obtain ⟨s3, o⟩ := res
+          obtain ⟨m3, rel3, hd3⟩ := safeRead_rel hsr
+          cases o with
+          | exc e => cases h
+          | data d0 =>
+            dsimp only at h
+            obtain ⟨e0, hl0⟩ := hd3 d0 rfl
+            have rel4 := rel3.toP.trans (setParse_relP r k s3 (fun x => { x with hcLeft := some 0 })
+              (fun x => ⟨rfl, rfl, rfl, rfl, rfl, rfl, rfl, rfl, rfl, rfl⟩))
+            rcases ih _ s1 _ _ d h (open_of_relP rel4 ho2) rs1 hrs1 with ⟨g1, g2⟩ | g
+            · refine Or.inl ⟨g1, fun _ => g2 (Or.inl ?_)⟩
+              intro e
+              have : d0 = [] := (List.append_eq_nil_iff.mp e).2
+              rw [this] at e0; rw [← e0] at hl0; simp at hl0; omega
+            · exact Or.inr g
+
+theorem hr_len0 {rs1 : Resp} (hc : rs1.chunked = false) (hl : rs1.length = some 0) : Done rs1 := (done_plain hc).mpr hl
+
+theorem hr_lennone {rs1 : Resp} (hc : rs1.chunked = false) (hl : rs1.length = none) : ¬ Delim rs1 := by
+  rw [delim_plain hc, hl]; simp
 
 theorem httpRead_link {A : Nat → Attempt → Prop} {f : Focus} {L : Option Nat} {s s1 : State} {r k : Nat} {rs : Resp}
     {amt : Option Nat} {out : DataOut}
@@ -537,9 +800,9 @@ theorem httpRead_link {A : Nat → Attempt → Prop} {f : Focus} {L : Option Nat
   have cl : ∀ t : State, LinkX L (some r) t → t.conns = s.conns →
       LinkX L (some r) (closeFp t r) ∧ (closeFp t r).conns = s.conns :=
     fun t ht hc => ⟨closeFp_linkx ht (Or.inl rfl), by rw [(closeFp_fields2 t r).1, hc]⟩
-  have setl : ∀ (t : State) (l' : Nat), LinkX L (some r) t → (∀ x : Resp, t.resps[r]? = some x → x.length.isSome = true) →
+  have setl : ∀ (t : State) (l' : Nat), LinkX L (some r) t →
       LinkX L (some r) (setResp t r fun x => { x with length := some l' }) :=
-    fun t l' ht hl => setResp_linkx r _ ht (fun _ => rfl) (fun x hx => Or.inr ⟨Or.inr rfl, hl x hx, rfl⟩) (fun _ _ => Or.inl rfl)
+    fun t l' ht => setResp_linkx r _ ht (fun _ => rfl) (fun x _ _ => Or.inl rfl) (fun _ _ => Or.inr (Or.inr rfl)) (fun _ _ => Or.inl rfl)
   unfold httpRead at hh
   simp only [hrs, hk] at hh
   split at hh
@@ -549,8 +812,26 @@ theorem httpRead_link {A : Nat → Attempt → Prop} {f : Focus} {L : Option Nat
     refine ⟨g1, g2, ?_⟩
     intro d _ rs1 h1
     right; left
-    rw [closeFp_at s r rs hrs rs1 h1]; exact head_len0 p hrs hk hhead
-  · generalize inboundLen s k + 2 = fuel at hh
+    obtain ⟨a1, _, a3, _⟩ := closeFp_at s r rs hrs rs1 h1
+    rw [done_head (by rw [a3]; exact hhead), a1]; exact head_len0 p hrs hk hhead
+  · rename_i hhead
+    split at hh
+    · -- `Transfer-Encoding: chunked`
+      rename_i hch
+      have dd := hcReadChunked_dirty r k (inboundLen s k + rs.buf.length + 2) s amt []
+      rw [hh] at dd
+      refine ⟨dirty_linkx h dd, dd.conns, ?_⟩
+      intro d hd rs1 h1
+      cases hd
+      obtain ⟨rx, hx, _, _, a3, _, _, a6, _⟩ := dd.rsame rs hrs
+      rw [h1] at hx; cases hx
+      rcases hcReadChunked_post r k _ s s1 amt [] d hh (fun rs' h' => by rw [hrs] at h'; cases h'; rw [hk]; simp) rs1 h1 with ⟨o1, o2⟩ | o
+      · exact Or.inl ⟨o1, fun _ n hn hn0 => o2 (Or.inr (fun n' hn' => by rw [hn] at hn'; cases hn'; exact hn0))⟩
+      · right; left
+        rw [done_chunked (by rw [a6]; exact hch) (by rw [a3]; simpa using hhead)]; exact o
+    rename_i hch
+    have hch : rs.chunked = false := by simpa using hch
+    generalize inboundLen s k + 2 = fuel at hh
     cases amt with
     | some n =>
       simp only at hh
@@ -561,7 +842,7 @@ theorem httpRead_link {A : Nat → Attempt → Prop} {f : Focus} {L : Option Nat
         obtain ⟨t, o⟩ := res
         obtain ⟨m, rel, hlen, hd⟩ := fpRead_rel _ _ _ _ _ _ _ _ hfr
         have ht := readRel_linkx h rel
-        obtain ⟨rt, hrt, hlt, hft⟩ := rel.resp_at hrs
+        obtain ⟨b, hrt⟩ := rel.rsame rs hrs
         cases o with
         | exc e => cases hh; exact ⟨ht, rel.conns, by intro d hd; cases hd⟩
         | data d =>
@@ -572,13 +853,14 @@ theorem httpRead_link {A : Nat → Attempt → Prop} {f : Focus} {L : Option Nat
             refine ⟨g1, g2, ?_⟩
             intro d' _ rs1 h1
             right; right; left
-            rw [closeFp_at t r rt hrt rs1 h1, hlt, hlen0]
+            obtain ⟨a1, a2, _⟩ := closeFp_at t r _ hrt rs1 h1
+            exact hr_lennone (by rw [a2]; exact hch) (by rw [a1]; exact hlen0)
           · cases hh
             refine ⟨ht, rel.conns, ?_⟩
             intro d' _ rs1 h1
             rw [hrt] at h1; cases h1
             right; right; left
-            rw [hlt, hlen0]
+            exact hr_lennone hch hlen0
       | some l =>
         simp only [hlen0] at hh
         generalize hn' : (if n > l then l else n) = n' at hh
@@ -586,7 +868,7 @@ theorem httpRead_link {A : Nat → Attempt → Prop} {f : Focus} {L : Option Nat
         obtain ⟨t, o⟩ := res
         obtain ⟨m, rel, hlen, hd⟩ := fpRead_rel _ _ _ _ _ _ _ _ hfr
         have ht := readRel_linkx h rel
-        obtain ⟨rt, hrt, hlt, hft⟩ := rel.resp_at hrs
+        obtain ⟨b, hrt⟩ := rel.rsame rs hrs
         cases o with
         | exc e => cases hh; exact ⟨ht, rel.conns, by intro d hd; cases hd⟩
         | data d =>
@@ -600,13 +882,14 @@ theorem httpRead_link {A : Nat → Attempt → Prop} {f : Focus} {L : Option Nat
             cases hd'
             right; right; right
             simp at hcond
-            refine ⟨n, rfl, ?_, hcond.1⟩
+            obtain ⟨_, a2, _⟩ := closeFp_at t r _ hrt rs1 h1
+            refine ⟨n, rfl, ?_, hcond.1, by rw [a2]; exact hch⟩
             intro hn0; subst hn0
             have : n' = 0 := by split at hn' <;> omega
             exact hcond.2 this
-          · have hs2 := setl t (l - d.length) ht (fun x hx => by rw [hrt] at hx; cases hx; rw [hlt, hlen0]; rfl)
+          · have hs2 := setl t (l - d.length) ht
             have hr2 : (setResp t r fun x => { x with length := some (l - d.length) }).resps[r]? =
-                some { rt with length := some (l - d.length) } := by
+                some { rs with buf := b, length := some (l - d.length) } := by
               simp [setResp, List.getElem?_modify, hrt]
             split at hh
             · rename_i hz
@@ -615,14 +898,16 @@ theorem httpRead_link {A : Nat → Attempt → Prop} {f : Focus} {L : Option Nat
               refine ⟨g1, g2, ?_⟩
               intro d' _ rs1 h1
               right; left
-              rw [closeFp_at _ r _ hr2 rs1 h1]; simp [hz]
+              obtain ⟨a1, a2, _⟩ := closeFp_at _ r _ hr2 rs1 h1
+              exact hr_len0 (by rw [a2]; exact hch) (by rw [a1]; simp [hz])
             · cases hh
               refine ⟨hs2, rel.conns, ?_⟩
               intro d' _ rs1 h1
               rw [hr2] at h1; cases h1
               left
-              show rt.fp ≠ none
-              rw [hft, hk]; simp
+              refine ⟨?_, fun hc => by rw [show ({ rs with buf := b, length := some (l - d.length) } : Resp).chunked = rs.chunked from rfl, hch] at hc; cases hc⟩
+              show rs.fp ≠ none
+              rw [hk]; simp
     | none =>
       simp only at hh
       cases hlen0 : rs.length with
@@ -632,7 +917,7 @@ theorem httpRead_link {A : Nat → Attempt → Prop} {f : Focus} {L : Option Nat
         obtain ⟨t, o⟩ := res
         obtain ⟨m, rel, hd⟩ := fpReadAll_rel _ _ _ _ _ _ _ hfr
         have ht := readRel_linkx h rel
-        obtain ⟨rt, hrt, hlt, hft⟩ := rel.resp_at hrs
+        obtain ⟨b, hrt⟩ := rel.rsame rs hrs
         cases o with
         | exc e => cases hh; exact ⟨ht, rel.conns, by intro d hd; cases hd⟩
         | data d =>
@@ -641,14 +926,15 @@ theorem httpRead_link {A : Nat → Attempt → Prop} {f : Focus} {L : Option Nat
           refine ⟨g1, g2, ?_⟩
           intro d' _ rs1 h1
           right; right; left
-          rw [closeFp_at t r rt hrt rs1 h1, hlt, hlen0]
+          obtain ⟨a1, a2, _⟩ := closeFp_at t r _ hrt rs1 h1
+          exact hr_lennone (by rw [a2]; exact hch) (by rw [a1]; exact hlen0)
       | some l =>
         simp only [hlen0] at hh
         generalize hfr : fpRead fuel s r k l [] = res at hh
         obtain ⟨t, o⟩ := res
         obtain ⟨m, rel, hlen, hd⟩ := fpRead_rel _ _ _ _ _ _ _ _ hfr
         have ht := readRel_linkx h rel
-        obtain ⟨rt, hrt, hlt, hft⟩ := rel.resp_at hrs
+        obtain ⟨b, hrt⟩ := rel.rsame rs hrs
         cases o with
         | exc e => cases hh; exact ⟨ht, rel.conns, by intro d hd; cases hd⟩
         | data d =>
@@ -657,15 +943,16 @@ theorem httpRead_link {A : Nat → Attempt → Prop} {f : Focus} {L : Option Nat
           · cases hh
             obtain ⟨g1, g2⟩ := cl t ht rel.conns
             exact ⟨g1, g2, by intro d hd; cases hd⟩
-          · have hs2 := setl t 0 ht (fun x hx => by rw [hrt] at hx; cases hx; rw [hlt, hlen0]; rfl)
-            have hr2 : (setResp t r fun x => { x with length := some 0 }).resps[r]? = some { rt with length := some 0 } := by
+          · have hs2 := setl t 0 ht
+            have hr2 : (setResp t r fun x => { x with length := some 0 }).resps[r]? = some { rs with buf := b, length := some 0 } := by
               simp [setResp, List.getElem?_modify, hrt]
             cases hh
             obtain ⟨g1, g2⟩ := cl _ hs2 rel.conns
             refine ⟨g1, g2, ?_⟩
             intro d' _ rs1 h1
             right; left
-            rw [closeFp_at _ r _ hr2 rs1 h1]
+            obtain ⟨a1, a2, _⟩ := closeFp_at _ r _ hr2 rs1 h1
+            exact hr_len0 (by rw [a2]; exact hch) (by rw [a1])
 
 theorem httpRead_closed {s : State} {r : Nat} (amt : Option Nat) (hc : respFpClosed s r = true) :
     httpRead s r amt = (s, .data []) := by
@@ -677,20 +964,110 @@ theorem httpRead_closed {s : State} {r : Nat} (amt : Option Nat) (hc : respFpClo
     simp [hc rs hrs]
 
 theorem noOwner_of_lennone {L X : Option Nat} {s : State} {r : Nat} {rs : Resp} (h : LinkX L X s)
-    (hrs : s.resps[r]? = some rs) (hl : rs.length = none) : NoOwner L s r := by
+    (hrs : s.resps[r]? = some rs) (hl : ¬ Delim rs) : NoOwner L s r := by
   intro c cn h1 h2
   cases hs : cn.sock with
   | none => exact Or.inl rfl
-  | some k =>
-    have := (h.pend c cn k r rs h1 hs h2 hrs).1
-    rw [hl] at this; cases this
+  | some k => exact absurd (h.pend c cn k r rs h1 hs h2 hrs).1 hl
+
+/-- closing readers and connections, queue traffic: the framing facts of every response stay -/
+def RQ (s s' : State) : Prop :=
+  ∀ (i : Nat) (rs : Resp), s.resps[i]? = some rs → ∃ rs' : Resp, s'.resps[i]? = some rs' ∧ rs'.length = rs.length ∧
+    rs'.chunked = rs.chunked ∧ rs'.isHead = rs.isHead ∧ rs'.eom = rs.eom ∧ rs'.eof = rs.eof
+
+theorem RQ.refl (s : State) : RQ s s := fun i rs h => ⟨rs, h, rfl, rfl, rfl, rfl, rfl⟩
+
+theorem RQ.trans {s t u : State} (a : RQ s t) (b : RQ t u) : RQ s u := by
+  intro i rs h
+  obtain ⟨r1, h1, a1, a2, a3, a4, a5⟩ := a i rs h
+  obtain ⟨r2, h2, b1, b2, b3, b4, b5⟩ := b i r1 h1
+  exact ⟨r2, h2, by rw [b1, a1], by rw [b2, a2], by rw [b3, a3], by rw [b4, a4], by rw [b5, a5]⟩
+
+theorem RQ.of_eq {s s' : State} (h : s'.resps = s.resps) : RQ s s' := fun i rs hi => ⟨rs, by rw [h]; exact hi, rfl, rfl, rfl, rfl, rfl⟩
+
+theorem closeFp_rq (s : State) (r : Nat) : RQ s (closeFp s r) := by
+  intro i rs h
+  by_cases hir : i = r
+  · subst hir
+    have hb : i < (closeFp s i).resps.length := by
+      rw [(closeFp_fields2 s i).2.1]
+      rcases Nat.lt_or_ge i s.resps.length with h' | h'
+      · exact h'
+      · rw [List.getElem?_eq_none h'] at h; cases h
+    obtain ⟨a1, a2, a3, a4, a5⟩ := closeFp_at s i rs h _ (List.getElem?_eq_getElem hb)
+    exact ⟨_, List.getElem?_eq_getElem hb, a1, a2, a3, a4, a5⟩
+  · exact ⟨rs, by rw [(closeFp_fields2 s r).2.2.1 i hir]; exact h, rfl, rfl, rfl, rfl, rfl⟩
+
+theorem connClose_rq (s : State) (c : Nat) : RQ s (connClose s c) := by
+  unfold connClose
+  split
+  · exact RQ.refl _
+  · have h1 : RQ s (setConn s c fun x => { x with sock := none, http := .idle, pending := none, proxyConnected := false }) :=
+      RQ.of_eq rfl
+    refine h1.trans ?_
+    generalize (setConn s c fun x => { x with sock := none, http := .idle, pending := none, proxyConnected := false }) = s1
+    split <;> split
+    · exact (RQ.of_eq (noteClose_fields _ _).2.1).trans (closeFp_rq _ _)
+    · exact RQ.of_eq (noteClose_fields _ _).2.1
+    · exact closeFp_rq _ _
+    · exact RQ.refl _
+
+theorem putConn_rq (s : State) (x : Option Nat) : RQ s (putConn s x).1 := by
+  have h0 : RQ s (logEv s (.put x)) := RQ.of_eq rfl
+  refine h0.trans ?_
+  unfold putConn
+  generalize logEv s (.put x) = t
+  simp only
+  split
+  · split
+    · exact RQ.of_eq rfl
+    · cases x with
+      | none => split <;> exact RQ.refl _
+      | some i => split
+                  · exact connClose_rq _ _
+                  · exact (connClose_rq _ _).trans (connClose_rq _ _)
+  · cases x with
+    | none => exact RQ.refl _
+    | some i => exact connClose_rq _ _
+
+theorem putConn_resp_fields (s : State) (x : Option Nat) (r : Nat) (rs : Resp) (hq : s.resps[r]? = some rs) :
+    ∃ rs1 : Resp, (putConn s x).1.resps[r]? = some rs1 ∧ rs1.length = rs.length ∧ rs1.chunked = rs.chunked ∧
+      rs1.isHead = rs.isHead ∧ rs1.eom = rs.eom ∧ rs1.eof = rs.eof := putConn_rq s x r rs hq
+
+/-- the clean exit of `_error_catcher` (`release_conn()` of a closed response) does not touch what
+`Done` / `Delim` look at -/
+theorem ece_true_same {s : State} {r : Nat} {rs rs' : Resp} (hcl : respFpClosed s r = true) (hq : s.resps[r]? = some rs)
+    (h3 : (errorCatcherExit s r true).1.resps[r]? = some rs') : (Done rs' ↔ Done rs) ∧ (Delim rs' ↔ Delim rs) := by
+  have e : (errorCatcherExit s r true) = (if respFpClosed s r then releaseConn s r else (s, none)) := rfl
+  rw [e, if_pos hcl] at h3
+  have key : rs'.length = rs.length ∧ rs'.chunked = rs.chunked ∧ rs'.isHead = rs.isHead ∧ rs'.eom = rs.eom ∧ rs'.eof = rs.eof := by
+    unfold releaseConn at h3
+    simp only [hq] at h3
+    split at h3
+    · rw [hq] at h3; cases h3; exact ⟨rfl, rfl, rfl, rfl, rfl⟩
+    · split at h3
+      · rw [hq] at h3; cases h3; exact ⟨rfl, rfl, rfl, rfl, rfl⟩
+      · rename_i c _
+        have hp := putConn_resp_fields s (some c) r rs hq
+        generalize putConn s (some c) = res at h3 hp
+        obtain ⟨s1, o⟩ := res
+        obtain ⟨rs1, g1, g2⟩ := hp
+        cases o with
+        | some e => dsimp only at h3; rw [g1] at h3; cases h3; exact g2
+        | none =>
+          dsimp only at h3
+          rw [setResp_at _ g1] at h3; cases h3; exact g2
+  obtain ⟨a1, a2, a3, a4, a5⟩ := key
+  unfold Done Delim
+  rw [a1, a2, a3, a4, a5]
+  exact ⟨Iff.rfl, Iff.rfl⟩
 
 /-- `_raw_read` under `_error_catcher` keeps `Link`; after a successful `read()` of everything the
 response is closed and (if length-delimited) complete -/
 theorem rawRead_link_aux {A : Nat → Attempt → Prop} {f : Focus} {L : Option Nat} {s s' : State} {r : Nat} {amt : Option Nat}
     {out : DataOut} (p : ProvF A s f) (h : Link L s) (hr : rawRead s r amt = (s', out)) :
     Link L s' ∧ (respFpClosed s r = false → ∀ d, out = .data d → ∀ rs' : Resp, s'.resps[r]? = some rs' →
-      rs'.fp ≠ none ∨ rs'.length = some 0 ∨ rs'.length = none) := by
+      rs'.fp ≠ none ∨ Done rs' ∨ ¬ Delim rs') := by
   have si : SockInj s := p.sockInj'
   rw [rawRead_eq] at hr
   by_cases hc : respFpClosed s r = true
@@ -749,12 +1126,12 @@ theorem rawRead_link_aux {A : Nat → Attempt → Prop} {f : Focus} {L : Option 
     dsimp only at hr
     have hmid : LinkX L (some r) (rawMid r amt s1 o1).1 ∧ (rawMid r amt s1 o1).1.conns = s.conns ∧
         (∀ d, (rawMid r amt s1 o1).2 = .data d → ∀ rs2 : Resp, (rawMid r amt s1 o1).1.resps[r]? = some rs2 →
-          rs2.fp ≠ none ∨ rs2.length = some 0 ∨ rs2.length = none) := by
+          rs2.fp ≠ none ∨ Done rs2 ∨ ¬ Delim rs2) := by
       have keep : ∀ d, o1 = .data d → (∀ n, amt = some n → ¬ (n ≠ 0 ∧ d = [])) → ∀ rs2 : Resp, s1.resps[r]? = some rs2 →
-          rs2.fp ≠ none ∨ rs2.length = some 0 ∨ rs2.length = none := by
+          rs2.fp ≠ none ∨ Done rs2 ∨ ¬ Delim rs2 := by
         intro d hd hn rs2 h2
-        rcases post1 d hd rs2 h2 with o | o | o | ⟨n, e1, e2, e3⟩
-        · exact Or.inl o
+        rcases post1 d hd rs2 h2 with o | o | o | ⟨n, e1, e2, e3, _⟩
+        · exact Or.inl o.1
         · exact Or.inr (Or.inl o)
         · exact Or.inr (Or.inr o)
         · exact absurd ⟨e2, e3⟩ (hn n e1)
@@ -766,6 +1143,26 @@ theorem rawRead_link_aux {A : Nat → Attempt → Prop} {f : Focus} {L : Option 
           dsimp only
           have hcl : LinkX L (some r) (closeFp s1 r) := closeFp_linkx h1 (Or.inl rfl)
           have hcc : (closeFp s1 r).conns = s.conns := by rw [(closeFp_fields2 s1 r).1, hc1]
+          have hdn : d = [] ∧ n ≠ 0 := by
+            simp at hcond; exact ⟨hcond.2, hcond.1⟩
+          -- what `http.client` left behind, seen through the `close()`
+          have pclose : ∀ rs3 : Resp, (closeFp s1 r).resps[r]? = some rs3 → Done rs3 ∨ ¬ Delim rs3 ∨ rs3.chunked = false := by
+            intro rs3 h3
+            have hb : r < s1.resps.length := by
+              rw [← (closeFp_fields2 s1 r).2.1]
+              rcases Nat.lt_or_ge r (closeFp s1 r).resps.length with h' | h'
+              · exact h'
+              · rw [List.getElem?_eq_none h'] at h3; cases h3
+            have hr1 : s1.resps[r]? = some s1.resps[r] := List.getElem?_eq_getElem hb
+            obtain ⟨e1, e2⟩ := closeFp_done s1 r _ hr1 rs3 h3
+            obtain ⟨_, a2, _⟩ := closeFp_at s1 r _ hr1 rs3 h3
+            rcases post1 d rfl _ hr1 with ⟨_, o⟩ | o | o | ⟨_, _, _, _, o⟩
+            · cases hch : s1.resps[r].chunked with
+              | false => right; right; rw [a2]; exact hch
+              | true => exact absurd hdn.1 (o hch n rfl hdn.2)
+            · exact Or.inl (e1.mpr o)
+            · exact Or.inr (Or.inl (fun hd' => o (e2.mp hd')))
+            · right; right; rw [a2]; exact o
           split
           · rename_i rs2 hrs2
             split
@@ -776,13 +1173,20 @@ theorem rawRead_link_aux {A : Nat → Attempt → Prop} {f : Focus} {L : Option 
                 refine ⟨hcl, hcc, ?_⟩
                 intro d' _ rs3 h3
                 rw [hrs2] at h3; cases h3
-                right; left
-                rw [hl]; simp at hl0; rw [hl0]
+                rcases pclose rs2 hrs2 with o | o | o
+                · exact Or.inr (Or.inl o)
+                · exact Or.inr (Or.inr o)
+                · right; left
+                  simp at hl0
+                  exact hr_len0 o (by rw [hl, hl0])
             · rename_i hl
               refine ⟨hcl, hcc, ?_⟩
               intro d' _ rs3 h3
               rw [hrs2] at h3; cases h3
-              exact Or.inr (Or.inr hl)
+              rcases pclose rs2 hrs2 with o | o | o
+              · exact Or.inr (Or.inl o)
+              · exact Or.inr (Or.inr o)
+              · exact Or.inr (Or.inr (hr_lennone o hl))
           · rename_i hn
             exact ⟨hcl, hcc, by intro d' _ rs3 h3; rw [hn] at h3; cases h3⟩
         · rename_i hcond
@@ -814,7 +1218,7 @@ theorem rawRead_link_aux {A : Nat → Attempt → Prop} {f : Focus} {L : Option 
       cases oe <;> (cases hr; exact ⟨this, by intro _ d hd; cases hd⟩)
     | data d =>
       dsimp only at hr
-      have hok : ∀ rs2 : Resp, s2.resps[r]? = some rs2 → rs2.fp ≠ none ∨ rs2.length = some 0 ∨ NoOwner L s2 r := by
+      have hok : ∀ rs2 : Resp, s2.resps[r]? = some rs2 → rs2.fp ≠ none ∨ Done rs2 ∨ NoOwner L s2 r := by
         intro rs2 h2'
         rcases post2 d rfl rs2 h2' with o | o | o
         · exact Or.inl o
@@ -823,7 +1227,7 @@ theorem rawRead_link_aux {A : Nat → Attempt → Prop} {f : Focus} {L : Option 
       have := ece_true_exempt h2 si2 hok
       have e : (errorCatcherExit s2 r true) = (if respFpClosed s2 r then releaseConn s2 r else (s2, none)) := rfl
       have fin : ∀ rs' : Resp, (errorCatcherExit s2 r true).1.resps[r]? = some rs' →
-          rs'.fp ≠ none ∨ rs'.length = some 0 ∨ rs'.length = none := by
+          rs'.fp ≠ none ∨ Done rs' ∨ ¬ Delim rs' := by
         intro rs' h3
         cases hq : s2.resps[r]? with
         | none =>
@@ -832,13 +1236,12 @@ theorem rawRead_link_aux {A : Nat → Attempt → Prop} {f : Focus} {L : Option 
           rw [this, hq] at h3; cases h3
         | some rs2 =>
           by_cases hcl : respFpClosed s2 r = true
-          · have hsafe := errorCatcherExit_safe s2 r true
-            have hl := (hsafe.st r rs2 rs' hq h3).2
+          · have hdd := ece_true_same hcl hq h3
             rw [respFpClosed_iff] at hcl
             rcases post2 d rfl rs2 hq with o | o | o
             · exact absurd (hcl rs2 hq) o
-            · right; left; rw [hl]; exact o
-            · right; right; rw [hl]; exact o
+            · right; left; exact hdd.1.mpr o
+            · right; right; exact fun hd' => o (hdd.2.mp hd')
           · have : errorCatcherExit s2 r true = (s2, none) := by rw [e]; simp [hcl]
             rw [this] at h3
             exact post2 d rfl rs' h3
@@ -872,19 +1275,19 @@ theorem readAmt_link {A : Nat → Attempt → Prop} {L : Option Nat} {r n : Nat}
       · exact ih s1 s' (X ++ d) (acc ++ d) out (q1 d rfl) h1 hr
 
 theorem deliver_link {L : Option Nat} {s : State} (r : Nat) (d : List Cell) (h : Link L s) : Link L (deliver s r d) :=
-  setResp_linkx r _ h (fun _ => rfl) (fun _ _ => Or.inl rfl) (fun _ _ => Or.inl rfl)
+  setResp_linkx r _ h (fun _ => rfl) (fun _ _ d => d) (fun _ _ => Or.inl id) (fun _ _ => Or.inl rfl)
 
 theorem deliver_resps (s : State) (r : Nat) (d : List Cell) (rs' : Resp) (h : (deliver s r d).resps[r]? = some rs') :
-    ∃ rs : Resp, s.resps[r]? = some rs ∧ rs'.fp = rs.fp ∧ rs'.length = rs.length := by
+    ∃ rs : Resp, s.resps[r]? = some rs ∧ rs'.fp = rs.fp ∧ (Done rs' ↔ Done rs) ∧ (Delim rs' ↔ Delim rs) := by
   simp only [deliver, setResp, List.getElem?_modify] at h
   cases hx : s.resps[r]? with
   | none => simp [hx] at h
-  | some x => simp [hx] at h; subst h; exact ⟨x, rfl, rfl, rfl⟩
+  | some x => simp [hx] at h; subst h; exact ⟨x, rfl, rfl, Iff.rfl, Iff.rfl⟩
 
 theorem respRead_link {A : Nat → Attempt → Prop} {L : Option Nat} {s s' : State} {r : Nat} {amt : Option Nat} {out : DataOut}
     (p : Prov A s) (h : Link L s) (hr : respRead s r amt = (s', out)) :
     Link L s' ∧ (amt = none → respFpClosed s r = false → ∀ d, out = .data d → ∀ rs' : Resp, s'.resps[r]? = some rs' →
-      rs'.fp ≠ none ∨ rs'.length = some 0 ∨ rs'.length = none) := by
+      rs'.fp ≠ none ∨ Done rs' ∨ ¬ Delim rs') := by
   have pf := focus_intro p r
   unfold respRead at hr
   cases amt with
@@ -899,9 +1302,12 @@ theorem respRead_link {A : Nat → Attempt → Prop} {L : Option Nat} {s s' : St
       cases hr
       refine ⟨deliver_link r d h1, ?_⟩
       intro _ hopen d' _ rs' h3
-      obtain ⟨rs1, g1, g2, g3⟩ := deliver_resps s1 r d rs' h3
-      rw [g2, g3]
-      exact post hopen d rfl rs1 g1
+      obtain ⟨rs1, g1, g2, g3, g4⟩ := deliver_resps s1 r d rs' h3
+      rw [g2]
+      rcases post hopen d rfl rs1 g1 with o | o | o
+      · exact Or.inl o
+      · exact Or.inr (Or.inl (g3.mpr o))
+      · exact Or.inr (Or.inr (fun hd' => o (g4.mp hd')))
   | some n =>
     dsimp only at hr
     generalize hrr : readAmt (n + 1) s r n [] = res at hr
@@ -941,6 +1347,178 @@ theorem drainConn_link {A : Nat → Attempt → Prop} {L : Option Nat} {s : Stat
   | exc e => dsimp only; split <;> exact h1
   | data d => exact h1
 
+/-! ### `read_chunked` -/
+
+theorem deliver_linkx {L X : Option Nat} {s : State} (r : Nat) (d : List Cell) (h : LinkX L X s) : LinkX L X (deliver s r d) :=
+  setResp_linkx r _ h (fun _ => rfl) (fun _ _ d => d) (fun _ _ => Or.inl id) (fun _ _ => Or.inl rfl)
+
+/-- response `r` is chunked and not a reply to `HEAD` -/
+def CI (r : Nat) (s : State) : Prop := ∀ rs : Resp, s.resps[r]? = some rs → rs.chunked = true ∧ rs.isHead = false
+
+theorem Dirty.ci {r k : Nat} {s s' : State} (d : Dirty r k s s') (h : CI r s) : CI r s' := by
+  intro rs' hrs'
+  have hb : r < s.resps.length := by
+    rw [← d.rlen]
+    rcases Nat.lt_or_ge r s'.resps.length with h' | h'
+    · exact h'
+    · rw [List.getElem?_eq_none h'] at hrs'; cases hrs'
+  obtain ⟨rx, hx, _, _, a3, _, _, a6, _⟩ := d.rsame _ (List.getElem?_eq_getElem hb)
+  rw [hrs'] at hx; cases hx
+  obtain ⟨g1, g2⟩ := h _ (List.getElem?_eq_getElem hb)
+  exact ⟨by rw [a6]; exact g1, by rw [a3]; exact g2⟩
+
+theorem deliver_ci {r : Nat} {s : State} (d : List Cell) (h : CI r s) : CI r (deliver s r d) := by
+  intro rs' hrs'
+  simp only [deliver, setResp, List.getElem?_modify] at hrs'
+  cases hx : s.resps[r]? with
+  | none => simp [hx] at hrs'
+  | some x => simp [hx] at hrs'; subst hrs'; exact h x hx
+
+theorem updateChunkLength_link {L : Option Nat} {s s' : State} {r k : Nat} {oe : Option Exc}
+    (h : LinkX L (some r) s) (si : SockInj s) (hci : CI r s) (hu : updateChunkLength s r k = (s', oe)) :
+    SockInj s' ∧ (oe = none → LinkX L (some r) s' ∧ CI r s') ∧ (∀ e, oe = some e → Link L s' ∨ LinkX L (some r) s') := by
+  unfold updateChunkLength at hu
+  split at hu
+  · cases hu; exact ⟨si, fun _ => ⟨h, hci⟩, by intro e he; cases he⟩
+  · have d1 := fpReadline_dirty (inboundLen s k + 2) s r k []
+    generalize fpReadline (inboundLen s k + 2) s r k [] = res at hu d1
+    obtain ⟨s1, o⟩ := res
+    have h1 := dirty_linkx h d1
+    have si1 : SockInj s1 := sockInj_conns d1.conns si
+    cases o with
+    | exc e => cases hu; exact ⟨si1, (by intro he; cases he), fun _ _ => Or.inr h1⟩
+    | data line =>
+      dsimp only at hu
+      split at hu
+      · cases hu
+        have d2 := setParse_dirty r k s1 (fun x => { x with chunkLeft := some ‹Nat› }) (fun x => ⟨rfl, rfl, rfl, rfl, rfl, rfl, rfl, rfl, rfl, rfl⟩)
+        exact ⟨sockInj_conns d2.conns si1, fun _ => ⟨dirty_linkx h1 d2, d2.ci (d1.ci hci)⟩, by intro e he; cases he⟩
+      · cases hu
+        exact ⟨(respClose_safe s1 r).sockInj si1, (by intro he; cases he), fun _ _ => Or.inl (respClose_exempt h1 si1)⟩
+
+theorem chunkLoop_link {L : Option Nat} {r k amt : Nat} : ∀ (fuel : Nat) (s s' : State) (acc : List Cell) (out : DataOut),
+    LinkX L (some r) s → SockInj s → CI r s → chunkLoop fuel s r k amt acc = (s', out) →
+    SockInj s' ∧ (∀ d, out = .data d → LinkX L (some r) s' ∧ CI r s') ∧ (∀ e, out = .exc e → Link L s' ∨ LinkX L (some r) s') := by
+  intro fuel
+  induction fuel with
+  | zero =>
+    intro s s' acc out h si hci hl
+    simp [chunkLoop] at hl; obtain ⟨rfl, rfl⟩ := hl
+    exact ⟨si, (by intro d hd; cases hd), fun _ _ => Or.inr h⟩
+  | succ fuel ih =>
+    intro s s' acc out h si hci hl
+    unfold chunkLoop at hl
+    generalize hu : updateChunkLength s r k = res at hl
+    obtain ⟨s1, oe⟩ := res
+    obtain ⟨si1, q1, q2⟩ := updateChunkLength_link h si hci hu
+    cases oe with
+    | some e => cases hl; exact ⟨si1, (by intro d hd; cases hd), fun _ _ => q2 e rfl⟩
+    | none =>
+      obtain ⟨h1, hci1⟩ := q1 rfl
+      dsimp only at hl
+      split at hl
+      · cases hl; exact ⟨si1, fun _ _ => ⟨h1, hci1⟩, by intro e he; cases he⟩
+      · have d2 := handleChunk_dirty s1 r k amt
+        generalize handleChunk s1 r k amt = res at hl d2
+        obtain ⟨s2, o⟩ := res
+        have h2 := dirty_linkx h1 d2
+        have si2 : SockInj s2 := sockInj_conns d2.conns si1
+        cases o with
+        | exc e => cases hl; exact ⟨si2, (by intro d hd; cases hd), fun _ _ => Or.inr h2⟩
+        | data d =>
+          dsimp only at hl
+          exact ih (deliver s2 r d) s' _ out (deliver_linkx r d h2) (sockInj_conns rfl si2) (deliver_ci d (d2.ci hci1)) hl
+
+theorem readChunkedBody_link {A : Nat → Attempt → Prop} {L : Option Nat} {s s' : State} {r amt : Nat} {out : DataOut}
+    (p : Prov A s) (h : Link L s) (hc : respChunked s r = true) (hb : readChunkedBody s r amt = (s', out)) :
+    SockInj s' ∧
+    (∀ d, out = .data d → Link L s' ∨ (LinkX L (some r) s' ∧
+      ∀ rs : Resp, s'.resps[r]? = some rs → rs.fp ≠ none ∨ Done rs ∨ NoOwner L s' r)) ∧
+    (∀ e, out = .exc e → Link L s' ∨ LinkX L (some r) s') := by
+  have si : SockInj s := p.sockInj'
+  unfold readChunkedBody at hb
+  split at hb
+  · cases hb; exact ⟨si, fun _ _ => Or.inl h, by intro e he; cases he⟩
+  · rename_i rs hrs
+    have hch : rs.chunked = true := by simpa [respChunked, hrs] using hc
+    split at hb
+    · rename_i hhead
+      cases hb
+      refine ⟨sockInj_conns (closeFp_fields2 s r).1 si, fun _ _ => Or.inl ?_, by intro e he; cases he⟩
+      refine closeFp_linkx h (Or.inr ?_)
+      intro rs2 hrs2
+      rw [hrs] at hrs2; cases hrs2
+      cases hfp : rs.fp with
+      | none => exact Or.inl rfl
+      | some k => right; left; rw [done_head hhead]; exact head_len0 p hrs hfp hhead
+    · rename_i hhead
+      split at hb
+      · cases hb; exact ⟨si, fun _ _ => Or.inl h, by intro e he; cases he⟩
+      · rename_i k hk
+        dsimp only at hb
+        generalize inboundLen s k + rs.buf.length + 2 = fuel at hb
+        have hx : LinkX L (some r) s := linkx_enter h (fun rs' h' => by rw [hrs] at h'; cases h'; rw [hk]; simp)
+        have hci : CI r s := fun rs' h' => by rw [hrs] at h'; cases h'; exact ⟨hch, by simpa using hhead⟩
+        generalize hcl : chunkLoop fuel s r k amt [] = res at hb
+        obtain ⟨s1, o⟩ := res
+        obtain ⟨si1, q1, q2⟩ := chunkLoop_link fuel s s1 [] o hx si hci hcl
+        cases o with
+        | exc e => cases hb; exact ⟨si1, (by intro d hd; cases hd), fun _ _ => q2 e rfl⟩
+        | data d =>
+          obtain ⟨h1, hci1⟩ := q1 d rfl
+          dsimp only at hb
+          have dd := skipTrailers_dirty r k fuel s1
+          generalize hst : skipTrailers fuel s1 r k = res2 at hb dd
+          obtain ⟨s2, oe⟩ := res2
+          have h2 := dirty_linkx h1 dd
+          have si2 : SockInj s2 := sockInj_conns dd.conns si1
+          cases oe with
+          | some e => cases hb; exact ⟨si2, (by intro d hd; cases hd), fun _ _ => Or.inr h2⟩
+          | none =>
+            cases hb
+            refine ⟨sockInj_conns (closeFp_fields2 s2 r).1 si2, fun _ _ => Or.inr ⟨closeFp_linkx h2 (Or.inl rfl), ?_⟩,
+              by intro e he; cases he⟩
+            intro rs3 hrs3
+            right; left
+            have hb2 : r < s2.resps.length := by
+              rw [← (closeFp_fields2 s2 r).2.1]
+              rcases Nat.lt_or_ge r (closeFp s2 r).resps.length with h' | h'
+              · exact h'
+              · rw [List.getElem?_eq_none h'] at hrs3; cases hrs3
+            have hr2 : s2.resps[r]? = some s2.resps[r] := List.getElem?_eq_getElem hb2
+            obtain ⟨_, a2, a3, a4, a5⟩ := closeFp_at s2 r _ hr2 rs3 hrs3
+            obtain ⟨g1, g2⟩ := dd.ci hci1 _ hr2
+            rw [done_chunked (by rw [a2]; exact g1) (by rw [a3]; exact g2), a4, a5]
+            exact skipTrailers_post r k fuel s1 s2 hst _ hr2
+
+theorem readChunked_link {A : Nat → Attempt → Prop} {L : Option Nat} {s : State} {r amt : Nat}
+    (p : Prov A s) (h : Link L s) (hc : respChunked s r = true) : Link L (readChunked s r amt).1 := by
+  unfold readChunked
+  generalize hb : readChunkedBody s r amt = res
+  obtain ⟨s1, o⟩ := res
+  obtain ⟨si1, q1, q2⟩ := readChunkedBody_link p h hc hb
+  dsimp only
+  unfold catcherExit
+  cases o with
+  | exc e =>
+    dsimp only
+    have : Link L (errorCatcherExit s1 r false).1 := by
+      rcases q2 e rfl with g | g
+      · exact ece_false_link g si1
+      · exact ece_false_exempt g si1
+    generalize errorCatcherExit s1 r false = res at this
+    obtain ⟨s2, oe⟩ := res
+    cases oe <;> exact this
+  | data d =>
+    dsimp only
+    have : Link L (errorCatcherExit s1 r true).1 := by
+      rcases q1 d rfl with g | ⟨g, hok⟩
+      · exact ece_true_link g si1
+      · exact ece_true_exempt g si1 hok
+    generalize errorCatcherExit s1 r true = res at this
+    obtain ⟨s2, oe⟩ := res
+    cases oe <;> exact this
+
 /-- the caller behaviours that do not release a connection whose response is unread -/
 def NoEarlyHow : How → Bool
   | .release => false
@@ -978,10 +1556,17 @@ theorem disposeResp_link {A : Nat → Attempt → Prop} {L : Option Nat} {s : St
     · exact respClose_link h p.sockInj'
   | stream k =>
     unfold disposeResp; dsimp only
-    generalize hrr : respStream _ s r k [] = res
-    obtain ⟨s1, o⟩ := res
-    have := respStream_link _ s s1 [] o p h hrr
-    cases o <;> exact this
+    by_cases hc : respChunked s r = true
+    · rw [if_pos hc]
+      have := readChunked_link (r := r) (amt := k) p h hc
+      generalize readChunked s r k = res at this ⊢
+      obtain ⟨s1, o⟩ := res
+      cases o <;> exact this
+    · rw [if_neg hc]
+      generalize hrr : respStream _ s r k [] = res
+      obtain ⟨s1, o⟩ := res
+      have := respStream_link _ s s1 [] o p h hrr
+      cases o <;> exact this
 
 theorem dispose_link {A : Nat → Attempt → Prop} {L : Option Nat} {s : State} (rid : Nat) (how : How)
     (hn : NoEarlyHow how = true) (p : Prov A s) (h : Link L s) : Link L (dispose s rid how).1 := by
@@ -1017,6 +1602,7 @@ structure RFrame (r : Nat) (R : State → State → Prop) : Prop where
   read : ∀ {k s s' m}, ReadRel r k s s' m → R s s'
   close : ∀ s, R s (closeFp s r)
   setlen : ∀ s l, R s (setResp s r fun x => { x with length := some l })
+  dirty : ∀ {k s s'}, Dirty r k s s' → R s s'
 
 theorem httpRead_frame {r : Nat} {R : State → State → Prop} (F : RFrame r R) (s : State) (amt : Option Nat) :
     R s (httpRead s r amt).1 := by
@@ -1037,7 +1623,9 @@ theorem httpRead_frame {r : Nat} {R : State → State → Prop} (F : RFrame r R)
     · rename_i k hk
       split
       · exact F.close _
-      · dsimp only
+      · split
+        · exact F.dirty (hcReadChunked_dirty r k _ s amt [])
+        dsimp only
         generalize inboundLen s k + 2 = fuel
         cases amt with
         | some n =>
@@ -1164,6 +1752,18 @@ theorem keepCH_frame (r : Nat) : RFrame r (KeepCH r) where
     cases hx : s.resps[r]? with
     | none => simp [hx] at h
     | some x => simp [hx] at h; subst h; exact ⟨x, rfl, rfl⟩
+  dirty := by
+    intro k s s' d
+    refine ⟨d.conns, ?_⟩
+    intro rs' h
+    have hb : r < s.resps.length := by
+      rcases Nat.lt_or_ge r s'.resps.length with h' | h'
+      · rw [← d.rlen]; exact h'
+      · rw [List.getElem?_eq_none h'] at h; cases h
+    have hrs : s.resps[r]? = some s.resps[r] := List.getElem?_eq_getElem hb
+    obtain ⟨rx, hx, _, _, _, _, _, _, _, _, a9⟩ := d.rsame _ hrs
+    rw [h] at hx; cases hx
+    exact ⟨_, hrs, a9⟩
 
 /-- a successful `read()` on a response that has no `_pool` yet (the preload read inside
 `_make_request`) does not touch any connection -/
@@ -1217,7 +1817,7 @@ theorem linkx_frame2 {L X : Option Nat} {s s' : State} (h : LinkX L X s)
       ∃ cn : Conn, s.conns[c]? = some cn ∧ cn'.sock = cn.sock ∧ cn'.pending = cn.pending)
     (hl : s.resps.length ≤ s'.resps.length)
     (hr : ∀ (r : Nat) (rs' : Resp), s'.resps[r]? = some rs' → r < s.resps.length →
-      ∃ rs : Resp, s.resps[r]? = some rs ∧ rs'.fp = rs.fp ∧ rs'.length = rs.length ∧ rs'.conn = rs.conn) :
+      ∃ rs : Resp, s.resps[r]? = some rs ∧ rs'.fp = rs.fp ∧ rs'.conn = rs.conn ∧ (Delim rs → Delim rs') ∧ (Done rs → Done rs')) :
     LinkX L X s' := by
   refine ⟨?_, ?_, ?_⟩
   · intro c cn' h1 h2
@@ -1232,12 +1832,17 @@ theorem linkx_frame2 {L X : Option Nat} {s s' : State} (h : LinkX L X s)
     rcases hc c cn' h1 with e | ⟨cn, g1, g2, g3⟩
     · rw [e] at h3; cases h3
     · have hb := h.bound c cn r g1 (by rw [← g3]; exact h3)
-      obtain ⟨rs, q1, q2, q3, q4⟩ := hr r rs' h4 hb
-      have := h.pend c cn k r rs g1 (by rw [← g2]; exact h2) (by rw [← g3]; exact h3) q1
-      rw [q2, q3, q4]; exact this
+      obtain ⟨rs, q1, q2, q3, q4, q5⟩ := hr r rs' h4 hb
+      obtain ⟨p1, p2, p3⟩ := h.pend c cn k r rs g1 (by rw [← g2]; exact h2) (by rw [← g3]; exact h3) q1
+      refine ⟨q4 p1, by rw [q2]; exact p2, fun hL => ?_⟩
+      have p3' := p3 hL
+      rw [q2, q3]
+      split
+      · rename_i hX; rw [if_pos hX] at p3'; exact p3'
+      · rename_i hX; rw [if_neg hX] at p3'; exact ⟨fun hn => q5 (p3'.1 hn), p3'.2⟩
 
 theorem appendConn_linkx {L X : Option Nat} {s : State} (h : LinkX L X s) : LinkX L X (newConn s).1 := by
-  refine linkx_frame2 h ?_ (Nat.le_refl _) (fun r rs' h1 _ => ⟨rs', h1, rfl, rfl, rfl⟩)
+  refine linkx_frame2 h ?_ (Nat.le_refl _) (fun r rs' h1 _ => ⟨rs', h1, rfl, rfl, id, id⟩)
   intro c cn' h1
   simp only [newConn, List.getElem?_append] at h1
   split at h1
@@ -1296,7 +1901,7 @@ theorem forget_linkx {L X : Option Nat} {s : State} (c : Nat) (h : LinkX L X s) 
     · split
       · exact h
       · split
-        · refine linkx_frame2 h ?_ (Nat.le_refl _) (fun r rs' h1 _ => ⟨rs', h1, rfl, rfl, rfl⟩)
+        · refine linkx_frame2 h ?_ (Nat.le_refl _) (fun r rs' h1 _ => ⟨rs', h1, rfl, rfl, id, id⟩)
           intro c' cn' h1
           simp only [setConn, List.getElem?_modify] at h1
           cases hx : s.conns[c']? with
@@ -1310,7 +1915,7 @@ theorem forget_linkx {L X : Option Nat} {s : State} (c : Nat) (h : LinkX L X s) 
 
 theorem setConn_http_linkx {L X : Option Nat} {s : State} (c : Nat) (g : Conn → Conn) (h : LinkX L X s)
     (hg : ∀ x, (g x).sock = x.sock ∧ (g x).pending = x.pending) : LinkX L X (setConn s c g) := by
-  refine linkx_frame2 h ?_ (Nat.le_refl _) (fun r rs' h1 _ => ⟨rs', h1, rfl, rfl, rfl⟩)
+  refine linkx_frame2 h ?_ (Nat.le_refl _) (fun r rs' h1 _ => ⟨rs', h1, rfl, rfl, id, id⟩)
   intro c' cn' h1
   simp only [setConn, List.getElem?_modify] at h1
   cases hx : s.conns[c']? with
@@ -1326,7 +1931,7 @@ theorem connect_linkx {L X : Option Nat} {s : State} {c : Nat} {cn : Conn} (a : 
   have hp : cn.pending = none := h.nosock c cn hc hs
   unfold connect
   cases a.connect <;> dsimp only
-  · refine linkx_frame2 h ?_ (Nat.le_refl _) (fun r rs' h1 _ => ⟨rs', h1, rfl, rfl, rfl⟩)
+  · refine linkx_frame2 h ?_ (Nat.le_refl _) (fun r rs' h1 _ => ⟨rs', h1, rfl, rfl, id, id⟩)
     intro c' cn' h1
     simp only [setConn, logEv, List.getElem?_modify] at h1
     cases hx : s.conns[c']? with
@@ -1433,7 +2038,7 @@ theorem hp_linkx {s0 s : State} {k c : Nat} {cn : Conn} (hp : HP k c s0 s) (h : 
     · rw [hp.cother c' hcc] at h1; exact Or.inr ⟨cn', h1, rfl, rfl⟩
   · intro r rs' h1 hb
     rw [hp.rold r hb] at h1
-    exact ⟨rs', h1, rfl, rfl, rfl⟩
+    exact ⟨rs', h1, rfl, rfl, id, id⟩
 
 /-- what `_make_request` knows about the response object `getresponse()` built on the leased connection -/
 structure NewResp (s' : State) (c k r : Nat) : Prop where
@@ -1521,26 +2126,26 @@ theorem getResponse_head_link {A : Nat → Attempt → Prop} {s s' : State} {c k
       · exact key _ l2 hp2 (fun cn' g => by rw [hc2] at g; cases g; exact hpend)
     | ok hd =>
       simp only [hpre, Bool.false_eq_true, if_false] at hgr
-      generalize hs3 : (setResp s2 sF.resps.length fun x => { x with length := initLength hd rc.isHead, status := hd.status }) = s3
-      have hgr' : (if (hd.close || (initLength hd rc.isHead).isNone) = true then
+      generalize hs3 : (setResp s2 sF.resps.length fun x => { x with length := initLength hd rc.isHead, status := hd.status, chunked := hd.chunked }) = s3
+      have hgr' : (if (hd.close || ((initLength hd rc.isHead).isNone && !hd.chunked)) = true then
             connClose (setConn s3 c fun x => { x with http := .idle }) c
           else setConn (setConn s3 c fun x => { x with http := .idle }) c fun x => { x with pending := some sF.resps.length },
           RespOut.resp sF.resps.length) = (s', out) := by rw [← hs3]; exact hgr
       clear hgr
       have hp3 : HP k c sF s3 := by rw [← hs3]; exact hp2.setResp _
-      have hr3 : s3.resps[sF.resps.length]? = some { r0 with buf := b, length := initLength hd rc.isHead, status := hd.status } := by
+      have hr3 : s3.resps[sF.resps.length]? = some { r0 with buf := b, length := initLength hd rc.isHead, status := hd.status, chunked := hd.chunked } := by
         rw [← hs3]; simp [setResp, List.getElem?_modify, hr2]
       have hc3 : s3.conns[c]? = some cn := by rw [← hs3]; exact hc2
       generalize hs4 : (setConn s3 c fun x => { x with http := .idle }) = s4 at hgr'
       have hp4 : HP k c sF s4 := by rw [← hs4]; exact hp3.setConn _
-      have hr4 : s4.resps[sF.resps.length]? = some { r0 with buf := b, length := initLength hd rc.isHead, status := hd.status } := by
+      have hr4 : s4.resps[sF.resps.length]? = some { r0 with buf := b, length := initLength hd rc.isHead, status := hd.status, chunked := hd.chunked } := by
         rw [← hs4]; exact hr3
       have hc4 : s4.conns[c]? = some { cn with http := .idle } := by
         rw [← hs4]; simp [setConn, List.getElem?_modify, hc3]
       have l4 : Link (some c) s4 := hp_linkx hp4 hF hcn (fun cn' g => by rw [hc4] at g; cases g; exact Or.inr ⟨rfl, rfl⟩)
       have rfacts : ∃ rs' : Resp, s4.resps[sF.resps.length]? = some rs' ∧ rs'.fp = some k ∧ rs'.hasPool = false ∧ rs'.conn = none :=
         ⟨_, hr4, by rw [← hr0], by rw [← hr0], by rw [← hr0]⟩
-      by_cases hw : (hd.close || (initLength hd rc.isHead).isNone) = true
+      by_cases hw : (hd.close || ((initLength hd rc.isHead).isNone && !hd.chunked)) = true
       · rw [if_pos hw] at hgr'
         cases hgr'
         obtain ⟨e1, e2, e3⟩ := connClose_fields_nopending s4 c _ hc4 hpend
@@ -1561,10 +2166,10 @@ theorem getResponse_head_link {A : Nat → Attempt → Prop} {s s' : State} {c k
         have hc5 : (setConn s4 c fun x => { x with pending := some sF.resps.length }).conns[c]? =
             some { cn with http := .idle, pending := some sF.resps.length } := by
           simp [setConn, List.getElem?_modify, hc4]
-        have hlen : (initLength hd rc.isHead).isSome = true := by
+        have hlen : (initLength hd rc.isHead).isSome = true ∨ hd.chunked = true := by
           cases hq : initLength hd rc.isHead with
-          | none => simp [hq] at hw
-          | some l => rfl
+          | none => simp [hq] at hw; exact Or.inr hw.2
+          | some l => exact Or.inl rfl
         refine ⟨⟨?_, ?_, ?_⟩, ?_, by intro e he; cases he⟩
         · intro c2 cn2 g1 g2
           by_cases hcc : c2 = c
@@ -1613,7 +2218,7 @@ theorem getResponse_head_link {A : Nat → Attempt → Prop} {s s' : State} {c k
 /-- classes raised by the reader before `_error_catcher` translates them -/
 def rawCls : List Nat :=
   [Gen.cOSError, Gen.cTimeoutError, Gen.cConnectionResetError, Gen.cKeyboardInterrupt, Gen.cHttpIncompleteRead,
-   Gen.cU3IncompleteRead]
+   Gen.cU3IncompleteRead, Gen.cLineTooLong]
 
 theorem recvInto_cls (s : State) (r k room : Nat) (e : Exc) (h : (recvInto s r k room).2 = .exc e) : e.cls ∈ rawCls := by
   unfold recvInto at h
@@ -1664,6 +2269,136 @@ theorem fpReadAll_cls : ∀ (fuel : Nat) (s : State) (r k : Nat) (acc : List Cel
       | eof => cases h
       | exc e' => cases h; exact this e rfl
 
+theorem fpReadline_cls : ∀ (fuel : Nat) (s : State) (r k : Nat) (acc : List Cell) (e : Exc),
+    (fpReadline fuel s r k acc).2 = .exc e → e.cls ∈ rawCls := by
+  intro fuel
+  induction fuel with
+  | zero => intro s r k acc e h; simp [fpReadline] at h; subst h; simp [rawCls, exc]
+  | succ fuel ih =>
+    intro s r k acc e h
+    unfold fpReadline at h
+    split at h
+    · cases h
+    · split at h
+      · cases h
+      · dsimp only at h
+        have := recvInto_cls (setResp s r fun x => { x with buf := [] }) r k bufSize
+        generalize recvInto (setResp s r fun x => { x with buf := [] }) r k bufSize = res at h this
+        obtain ⟨s2, o⟩ := res
+        cases o with
+        | got => exact ih _ _ _ _ _ h
+        | eof => cases h
+        | exc e' => cases h; exact this e rfl
+
+theorem safeRead_cls (s : State) (r k n : Nat) (e : Exc) (h : (safeRead s r k n).2 = .exc e) : e.cls ∈ rawCls := by
+  unfold safeRead at h
+  have h1 := fpRead_cls (inboundLen s k + 2) s r k n []
+  generalize fpRead (inboundLen s k + 2) s r k n [] = res at h h1
+  obtain ⟨s1, o⟩ := res
+  cases o with
+  | exc e' => cases h; exact h1 e rfl
+  | data d =>
+    dsimp only at h
+    split at h
+    · cases h; simp [rawCls, exc]
+    · cases h
+
+theorem hcDiscardTrailer_cls (r k : Nat) : ∀ (fuel : Nat) (s : State) (e : Exc),
+    (hcDiscardTrailer fuel s r k).2 = some e → e.cls ∈ rawCls := by
+  intro fuel
+  induction fuel with
+  | zero => intro s e h; simp [hcDiscardTrailer] at h; subst h; simp [rawCls, exc]
+  | succ fuel ih =>
+    intro s e h
+    unfold hcDiscardTrailer at h
+    have h1 := fpReadline_cls (inboundLen s k + 2) s r k []
+    generalize fpReadline (inboundLen s k + 2) s r k [] = res at h h1
+    obtain ⟨s1, o⟩ := res
+    cases o with
+    | exc e' => cases h; exact h1 e rfl
+    | data line =>
+      dsimp only at h
+      split at h
+      · cases h
+      · split at h
+        · cases h
+        · exact ih s1 e h
+
+theorem hcNext_cls (s : State) (r k : Nat) (cl : Option Nat) (e : Exc) (h : (hcNext s r k cl).2 = .exc e) : e.cls ∈ rawCls := by
+  unfold hcNext at h
+  have h0 : ∀ e', (hcToss s r k cl).2 = some e' → e'.cls ∈ rawCls := by
+    intro e' h'
+    unfold hcToss at h'
+    split at h'
+    · have hs := safeRead_cls s r k 2
+      generalize safeRead s r k 2 = res at h' hs
+      obtain ⟨s1, o⟩ := res
+      cases o with
+      | exc e2 => cases h'; exact hs _ rfl
+      | data d => cases h'
+    · cases h'
+  generalize hcToss s r k cl = res at h h0
+  obtain ⟨s1, oe⟩ := res
+  cases oe with
+  | some e' => cases h; exact h0 e rfl
+  | none =>
+    dsimp only at h
+    have h1 := fpReadline_cls (inboundLen s1 k + 2) s1 r k []
+    generalize fpReadline (inboundLen s1 k + 2) s1 r k [] = res at h h1
+    obtain ⟨s2, o⟩ := res
+    cases o with
+    | exc e' => cases h; exact h1 e rfl
+    | data line =>
+      dsimp only at h
+      split at h
+      · cases h; simp [rawCls, exc]
+      · have h2 := hcDiscardTrailer_cls r k (inboundLen s2 k + (match s2.resps[r]? with | some rs => rs.buf.length | none => 0) + 2) s2
+        generalize hcDiscardTrailer (inboundLen s2 k + (match s2.resps[r]? with | some rs => rs.buf.length | none => 0) + 2) s2 r k = res at h h2
+        obtain ⟨s3, oe⟩ := res
+        cases oe with
+        | some e' => cases h; exact h2 e rfl
+        | none => cases h
+      · cases h
+
+theorem hcGetChunkLeft_cls (s : State) (r k : Nat) (e : Exc) (h : (hcGetChunkLeft s r k).2 = .exc e) : e.cls ∈ rawCls := by
+  unfold hcGetChunkLeft at h
+  split at h
+  · cases h
+  · exact hcNext_cls _ _ _ _ _ h
+
+theorem hcReadChunked_cls (r k : Nat) : ∀ (fuel : Nat) (s : State) (amt : Option Nat) (acc : List Cell) (e : Exc),
+    (hcReadChunked fuel s r k amt acc).2 = .exc e → e.cls ∈ rawCls := by
+  intro fuel
+  induction fuel with
+  | zero => intro s amt acc e h; simp [hcReadChunked] at h; subst h; simp [rawCls, exc]
+  | succ fuel ih =>
+    intro s amt acc e h
+    unfold hcReadChunked at h
+    have h0 := hcGetChunkLeft_cls s r k
+    generalize hcGetChunkLeft s r k = res at h h0
+    obtain ⟨s1, lo⟩ := res
+    cases lo with
+    | exc e' => cases h; exact h0 e rfl
+    | left v =>
+      cases v with
+      | none => cases h
+      | some cl =>
+        dsimp only at h
+        split at h
+        · rename_i n _
+          have h1 := safeRead_cls s1 r k n
+          generalize safeRead s1 r k n = res at h h1
+          obtain ⟨s2, o⟩ := res
+          cases o with
+          | exc e' => cases h; exact h1 e rfl
+          | data d => cases h
+        · have h1 := safeRead_cls s1 r k cl
+          generalize safeRead s1 r k cl = res at h h1
+          obtain ⟨s2, o⟩ := res
+          cases o with
+          | exc e' => cases h; exact h1 e rfl
+          | data d => exact ih _ _ _ e h
+
 theorem httpRead_cls (s : State) (r : Nat) (amt : Option Nat) (e : Exc) (h : (httpRead s r amt).2 = .exc e) : e.cls ∈ rawCls := by
   unfold httpRead at h
   split at h
@@ -1674,7 +2409,9 @@ theorem httpRead_cls (s : State) (r : Nat) (amt : Option Nat) (e : Exc) (h : (ht
     · rename_i k hk
       split at h
       · cases h
-      · dsimp only at h
+      · split at h
+        · exact hcReadChunked_cls r k _ s amt [] e h
+        dsimp only at h
         generalize inboundLen s k + 2 = fuel at h
         cases amt with
         | some n =>
@@ -1865,6 +2602,150 @@ theorem readExc_not_noCleanup {e : Exc} (u : Bool) (rt : Retry) (m : Bool)
     have : ∀ c ∈ rawCls, isInst (trCls c) (Gen.urlopenHandlers.getD 1 []) = false := by decide
     exact this _ h0
 
+/-! ### a trailer section that ends at EOF: the socket has the FIN pending (the checkout probe will see it) -/
+
+theorem eolIdx_pos : ∀ (l : List Cell) (i n : Nat), eolIdx l i = some n → i < n ∧ n ≤ i + l.length := by
+  intro l
+  induction l with
+  | nil => intro i n h; simp [eolIdx] at h
+  | cons c t ih =>
+    intro i n h
+    simp only [eolIdx] at h
+    split at h
+    · cases h; simp
+    · obtain ⟨g1, g2⟩ := ih (i + 1) n h
+      simp; omega
+
+theorem recvInto_eof_readable {s s' : State} {r k room : Nat} (h : recvInto s r k room = (s', .eof)) :
+    sockReadable s' k = true ∧ s'.resps = s.resps := by
+  unfold recvInto at h
+  dsimp only at h
+  split at h
+  · cases h
+  · rename_i sk hsk
+    split at h
+    · rename_i hin
+      split at h
+      · rename_i haf
+        cases h
+        refine ⟨?_, rfl⟩
+        unfold sockReadable
+        have hsk' : (logEv s (.recv k)).socks[k]? = some sk := hsk
+        simp [hsk', haf]
+      · cases h
+      · cases h
+      · cases h
+    · cases h
+
+theorem fpReadline_empty_eof : ∀ (fuel : Nat) (s s' : State) (r k : Nat) (acc : List Cell),
+    fpReadline fuel s r k acc = (s', .data []) → (∃ rs : Resp, s.resps[r]? = some rs) →
+    sockReadable s' k = true := by
+  intro fuel
+  induction fuel with
+  | zero => intro s s' r k acc h; simp [fpReadline] at h
+  | succ fuel ih =>
+    intro s s' r k acc h ⟨rs0, hrs0⟩
+    unfold fpReadline at h
+    simp only [hrs0] at h
+    split at h
+    · rename_i n hn
+      exfalso
+      obtain ⟨g1, g2⟩ := eolIdx_pos _ _ _ hn
+      simp at h
+      rcases h.2.2 with e | e
+      · omega
+      · rw [e] at g2; simp at g2; omega
+    · generalize hrv : recvInto (setResp s r fun x => { x with buf := [] }) r k bufSize = res at h
+      obtain ⟨s2, o⟩ := res
+      cases o with
+      | got =>
+        dsimp only at h
+        have hex : ∃ rs : Resp, s2.resps[r]? = some rs := by
+          have rel := recvInto_rel (setResp s r fun x => { x with buf := [] }) r k bufSize
+          rw [hrv] at rel
+          obtain ⟨b, hb⟩ := rel.rsame _ (setResp_at (fun x => { x with buf := [] }) hrs0)
+          exact ⟨_, hb⟩
+        exact ih s2 s' r k _ h hex
+      | eof =>
+        simp at h
+        obtain ⟨rfl, _⟩ := h
+        exact (recvInto_eof_readable hrv).1
+      | exc e => cases h
+
+theorem setResp_readable (s : State) (r k : Nat) (g : Resp → Resp) : sockReadable (setResp s r g) k = sockReadable s k := rfl
+
+/-- the trailer loop of `read_chunked` ended, and not because it saw the empty line: the peer's FIN is pending -/
+theorem skipTrailers_eof (r k : Nat) : ∀ (fuel : Nat) (s s' : State), skipTrailers fuel s r k = (s', none) →
+    (∃ rs : Resp, s.resps[r]? = some rs) → (∀ rs' : Resp, s'.resps[r]? = some rs' → rs'.eom = false) →
+    sockReadable s' k = true := by
+  intro fuel
+  induction fuel with
+  | zero => intro s s' h; simp [skipTrailers] at h
+  | succ fuel ih =>
+    intro s s' h hex hne
+    unfold skipTrailers at h
+    generalize hfr : fpReadline (inboundLen s k + 2) s r k [] = res at h
+    obtain ⟨s1, o⟩ := res
+    have hex1 : ∃ rs : Resp, s1.resps[r]? = some rs := by
+      obtain ⟨m, rel, _⟩ := fpReadline_rel _ _ _ _ _ _ _ hfr
+      obtain ⟨rs0, h0⟩ := hex
+      obtain ⟨b, hb⟩ := rel.rsame rs0 h0
+      exact ⟨_, hb⟩
+    cases o with
+    | exc e => cases h
+    | data line =>
+      dsimp only at h
+      split at h
+      · rename_i hemp
+        cases h
+        have : line = [] := by simpa using hemp
+        subst this
+        rw [setResp_readable]
+        exact fpReadline_empty_eof _ s s1 r k [] hfr hex
+      · split at h
+        · cases h
+          exfalso
+          obtain ⟨rs1, h1⟩ := hex1
+          have := hne _ (setResp_at (fun x => { x with eom := true }) h1)
+          cases this
+        · exact ih s1 s' h hex1 hne
+
+/-- … and the same for `http.client`'s `_read_and_discard_trailer` -/
+theorem hcDiscardTrailer_eof (r k : Nat) : ∀ (fuel : Nat) (s s' : State), hcDiscardTrailer fuel s r k = (s', none) →
+    (∃ rs : Resp, s.resps[r]? = some rs) → (∀ rs' : Resp, s'.resps[r]? = some rs' → rs'.eom = false) →
+    sockReadable s' k = true := by
+  intro fuel
+  induction fuel with
+  | zero => intro s s' h; simp [hcDiscardTrailer] at h
+  | succ fuel ih =>
+    intro s s' h hex hne
+    unfold hcDiscardTrailer at h
+    generalize hfr : fpReadline (inboundLen s k + 2) s r k [] = res at h
+    obtain ⟨s1, o⟩ := res
+    have hex1 : ∃ rs : Resp, s1.resps[r]? = some rs := by
+      obtain ⟨m, rel, _⟩ := fpReadline_rel _ _ _ _ _ _ _ hfr
+      obtain ⟨rs0, h0⟩ := hex
+      obtain ⟨b, hb⟩ := rel.rsame rs0 h0
+      exact ⟨_, hb⟩
+    cases o with
+    | exc e => cases h
+    | data line =>
+      dsimp only at h
+      split at h
+      · rename_i hemp
+        cases h
+        have : line = [] := by simpa using hemp
+        subst this
+        rw [setResp_readable]
+        exact fpReadline_empty_eof _ s s1 r k [] hfr hex
+      · split at h
+        · cases h
+          exfalso
+          obtain ⟨rs1, h1⟩ := hex1
+          have := hne _ (setResp_at (fun x => { x with eom := true }) h1)
+          cases this
+        · exact ih s1 s' h hex1 hne
+
 theorem link_unlease2 {c : Nat} {s : State} (h : Link (some c) s) (hc : ∀ cn : Conn, s.conns[c]? = some cn → cn.pending = none) :
     Link none s := by
   refine ⟨h.nosock, h.bound, ?_⟩
@@ -1906,13 +2787,13 @@ theorem respRead_none_closed {A : Nat → Attempt → Prop} {s s' : State} {r : 
 structure NewResp2 (s' : State) (c r : Nat) (preload : Bool) : Prop where
   conn : ∀ cn' : Conn, s'.conns[c]? = some cn' → cn'.sock = none ∨ cn'.pending = some r
   resp : ∀ rs' : Resp, s'.resps[r]? = some rs' →
-    (if preload then rs'.fp = none ∧ (rs'.length = some 0 ∨ rs'.length = none)
+    (if preload then rs'.fp = none ∧ (Done rs' ∨ ¬ Delim rs')
      else rs'.fp ≠ none ∧ ∀ (c2 : Nat) (cn2 : Conn), s'.conns[c2]? = some cn2 → cn2.pending = some r → c2 = c)
 
 theorem getResponse_link {A : Nat → Attempt → Prop} {s s' : State} {c k rid : Nat} {rc : ReqCfg} {a : Attempt}
     {cn0 : Conn} {sk : Sock} {out : RespOut}
     (p : Prov A s) (h : Link none s) (hc : s.conns[c]? = some cn0) (hk : cn0.sock = some k) (hsk : s.socks[k]? = some sk)
-    (hin : sk.inbound = serverCells rid a ∨ sk.inbound = []) (hA : A rid a)
+    (hin : (∃ H, NoHd H ∧ sk.inbound = H ++ serverNow rid a) ∨ sk.inbound = []) (hA : A rid a)
     (hgr : getResponse s c k rid rc = (s', out)) :
     Link (some c) s' ∧ (∀ r, out = .resp r → NewResp2 s' c r rc.preload) ∧
     (∀ e, out = .exc e → Link none s' ∨ e.cls = Gen.cU3FullPoolError ∨ ∃ e0 : Exc, e0.cls ∈ rawCls ∧ e = translateRead e0) := by
@@ -2004,7 +2885,7 @@ theorem attach_link {s : State} {c r : Nat} {preload : Bool} {v : Option Nat} (h
         refine ⟨fun _ => ?_, fun hne => absurd nr.1 hne⟩
         rcases nr.2 with o | o
         · exact o
-        · rw [o] at q1; cases q1
+        · exact absurd q1 o
       | false =>
         simp only [Bool.false_eq_true, if_false] at nr
         refine ⟨fun hn => absurd hn nr.1, fun _ => ?_⟩
@@ -2037,7 +2918,7 @@ theorem makeRequest_link {A : Nat → Attempt → Prop} {s s' : State} {c rid : 
   obtain ⟨spE, spK⟩ := connRequest_spec p hl hcr
   dsimp only at hm hcl
   have tail : ∀ (k : Nat) (cn0 : Conn) (sk : Sock), Prov A s1 → s1.conns[c]? = some cn0 → cn0.sock = some k →
-      s1.socks[k]? = some sk → (sk.inbound = serverCells rid a ∨ sk.inbound = []) →
+      s1.socks[k]? = some sk → ((∃ H, NoHd H ∧ sk.inbound = H ++ serverNow rid a) ∨ sk.inbound = []) →
       makeTail s1 c rid rc (.ok k) = (s', out) →
       (∀ r, out = .resp r → Link none s') ∧
       (∀ e, out = .exc e → Link none s' ∨ (Link (some c) s' ∧ SockInj s' ∧ ∀ u rt m, handleError u rt m e.cls ≠ .noCleanup)) := by
@@ -2065,7 +2946,7 @@ theorem makeRequest_link {A : Nat → Attempt → Prop} {s s' : State} {c rid : 
         · right; simp [hne]
         · exact Or.inl hne
       have p3 := (setResp_safe s2 r (fun x => { x with conn := if rc.release then none else some c, hasPool := true })
-        (fun x => ⟨rfl, rfl, rfl, Or.inr ⟨rfl, rfl, rfl⟩⟩)).prov p2
+        (fun x => ⟨rfl, rfl, rfl, Or.inr ⟨rfl, rfl, rfl, rfl⟩⟩)).prov p2
       unfold attachResp at ht
       generalize (setResp s2 r fun x => { x with conn := if rc.release then none else some c, hasPool := true }) = t at ht l3 p3
       dsimp only at ht
@@ -2085,8 +2966,8 @@ theorem makeRequest_link {A : Nat → Attempt → Prop} {s s' : State} {c rid : 
   cases ek with
   | ok k =>
     obtain ⟨hst, cn, hc, hk, hcase⟩ := spK k rfl
-    rcases hcase with ⟨hp, p1, sk, hsk, hin⟩ | ⟨hp, pc⟩
-    · exact tail k cn sk p1 hc hk hsk (Or.inl hin) hm
+    rcases hcase with ⟨hp, p1, sk, H, hsk, hH, hin⟩ | ⟨hp, pc⟩
+    · exact tail k cn sk p1 hc hk hsk (Or.inl ⟨H, hH, hin⟩) hm
     · unfold sendFix makeTail at hm
       dsimp only at hm
       rw [getResponse_notReady hst hc hp] at hm
@@ -2268,7 +3149,7 @@ theorem request_link {A : Nat → Attempt → Prop} (rid : Nat) : ∀ (script : 
               else (markReturned s3 r, Result.resp r)).1 := by
             intro loc ra status
             have mr : Link none (markReturned s3 r) :=
-              setResp_linkx r _ lp (fun _ => rfl) (fun _ _ => Or.inl rfl) (fun _ _ => Or.inl rfl)
+              setResp_linkx r _ lp (fun _ => rfl) (fun _ _ d => d) (fun _ _ => Or.inl id) (fun _ _ => Or.inl rfl)
             split
             · split
               · split
